@@ -27,6 +27,62 @@ Everything here is decided from the syntax tree; no code of the repository is ru
   iteration, or `ti - <snapshot of ti before the loop>`) are recognised as such.
 * G3-setters-commute and G4-zero-divisor are write-set / flow analyses.
 Every recogniser is three-valued: HOLDS for a recognised correct form, VIOLATED only for a recognised wrong form, else UNDECIDED.
+
+Soundness audit of the VIOLATED verdicts (pass 4).  For each diagnosis: the assumptions under which it is true of the code, and
+how the rule establishes them (when one cannot be established the verdict is UNDECIDED).  The same notes stand next to the code.
+ W1-dataset-name       a reader never reads the created path.  Checked: the dataset is created directly in the opened file (no
+                       group); the reader's list of paths is complete (`_file_reads_complete`: all literal, none continued into
+                       a group, no .get / visitor) and does not contain the created path.  A reader that reads it AND something
+                       else: undecided.
+ W1-hyperslab (block)  bounds are not [starts, ends) of one layout.  Checked: both bounds are properties of the REFERENCE Layout
+                       (`_known_prop`; an alias / cached block a refactoring introduced is undecided), same layout or a layout
+                       fixed by a literal name.  Fixed layout vs `self._f`: the value written is self._f and the writer does not
+                       change layout itself.  Shape: a reference property other than fullShape.
+ W1-hyperslab (subset) transfer done by some processes only: the test compares a rank (rank / *_rank / *Rank, not `ranks`) with a
+                       literal by == / != and the other arm transfers nothing.  New argument switches the transfer off: its
+                       default does, AND no call of the method in the analysed units passes it (`_some_call_passes`).
+ W1-layout-attribute   reader never reads the recorded key and the writer provably writes no other attribute; writer records a
+                       reference property other than the one the loader compares with (relational, both sides reference
+                       properties); order of a literal layout recorded while another layout's block is written.
+ W1-layout-guard       never compared: attribute value, file and dataset are handed to no callable, no test reads the attribute,
+                       no code of a refactoring is called that the composition could not write back (`_calls_new_code`).
+                       Wrong quantifier: `_eq_form` of the single guard (all / any / array_equal, negations folded).
+                       Grid built in one layout and filled by another: one side is the caller's request and the other is not,
+                       or exactly one side is a literal that no surrounding test mentions (dispatch by cases is not a mismatch).
+                       Stored order -> name: selection by any-equal, or a default layout for an unknown order.  ("stays None and
+                       nothing refuses" was withdrawn: the layout manager's look-up refuses None with a KeyError.)
+                       setLayout missing / inverted: request handed to nothing, no new code called; test polarity read.
+ W2-file-name-family   defaults differ: both parameters are the {N} field of the templates (roles read off the templates).  No
+                       padding + choice by name: every driver call passes a plain number as time (`_callers_pass_plain_time`:
+                       caller + callee).  Writer / loader / restart names differ: templates compared with every field given a role
+                       by what it is (parameter, folder through a path normaliser, requested time); a field of unknown role makes
+                       the name uncompared.  Parameter file / restart decision: the existence test that DECIDES the restart is
+                       found by role (condition of the `if` that calls setupFromFile, through a boolean flag).
+ W2-latest-selection   by date / smallest / unsorted listing: the selected-from expression is the listing itself (pattern read)
+                       and nothing sorts elsewhere.  Pattern vs family: only the provable relations - disjoint, narrower, or wider
+                       AND listing the files the driver writes under its other prefix.  Literal time: the only return.
+                       Parsed time: abstract string semantics (`_abs_string`) - exact for the operations it models, None otherwise.
+ W2-explicit-time      classification of the deciding test (presence / noneness against the parameter's actual default / truth
+                       value); explicit and latest file sit in the two arms of that test.
+ G3-setters-commute    write sets; a foreign key written only under a test on that key itself is undecided.
+ G3-printer            `required` = settable public attributes (class-level values that are not tables of names, properties with
+                       setter); vars(self) is wrong only if such attributes exist; table keys enumerated from a literal.
+ G3-defaults-after-file  early install: the constructor flag's meaning is read off __init__; an early set_defaults call counts only
+                       when unconditional (before / directly in the loop).  Completion overwrites: a write whose value reads the
+                       attribute itself is an unrecognised guard (undecided).
+ G3-dependency-order   result never examined: every read of it is the value of a store.  Never retried: the container is mentioned
+                       nowhere outside the loop and no new code is called.  Operand replaced: the replacement is a literal or
+                       read from the defaults table, in an arm that does nothing else.  Never tested: every read is textual.
+ G4-zero-divisor       flow analysis on {zero, pos, unknown}; arms that always leave do not reach the join; try / with bodies are
+                       scanned; any binding the analysis does not model makes the counter unknown (never zero); a division
+                       inside a try that handles the error is undecided.  Divisors: counter, counter + literal, and `X - S` for a
+                       snapshot S = X (difference counter).
+ W3-restart-index      literal overwrites the time: unconditional, top level, after every set-up call.  Literal start index: the
+                       loop bound is an absolute index.  Step != 1: only when index = time // step was established.
+ W3-save-steps         congruences on the recognised forms; other conventions (both sites in another variable, same other
+                       residue) undecided.  One grid only: no helper receives the same label / folder, no new code called.
+                       Written from the other object: only when it is the object written under the other name.  Label: an
+                       expression that does not read the time at all.
 """
 from __future__ import annotations
 
@@ -299,6 +355,132 @@ def _inline_expression_functions(chk, rel, w):
     return done
 
 
+# ---- methods by role: a method is looked up in its class and then in the bases of the class (mixins, base classes of the
+#      repository, followed through the imports of the module that defines the class)
+def _class_named(chk, rel, name):
+    """the class called `name` in module `rel` (defined there or imported from a module of the repository) -> (module, ClassDef) | None"""
+    try:
+        m = chk.repo.mod(rel)
+    except AnalysisError:
+        return None
+    if m.has(name) and isinstance(m.get(name), ast.ClassDef):
+        return rel, m.get(name)
+    imp = _imported_functions(chk, rel)
+    if name in imp:
+        target, real = imp[name]
+        try:
+            m2 = chk.repo.mod(target)
+        except AnalysisError:
+            return None
+        if m2.has(real) and isinstance(m2.get(real), ast.ClassDef):
+            return target, m2.get(real)
+    return None
+
+
+def _find_method(chk, rel, cls, name, depth=4):
+    """the method `name` as an instance of class `cls` (of module `rel`) sees it: defined in the class, else in exactly one of its
+    bases (searched through the repository) -> (FunctionDef, module, qualified name) | None.  Several definitions of the name in
+    one class (property getter / setter) or in several bases are not resolved"""
+    own = [m_ for m_ in cls.body if isinstance(m_, ast.FunctionDef) and m_.name == name]
+    if len(own) == 1:
+        return own[0], rel, f"{cls.name}.{name}"
+    if own or depth <= 0:
+        return None
+    found = []
+    for b in cls.bases:
+        if not isinstance(b, ast.Name):
+            continue
+        got = _class_named(chk, rel, b.id)
+        if got is None:
+            continue
+        r = _find_method(chk, got[0], got[1], name, depth - 1)
+        if r is not None:
+            found.append(r)
+    return found[0] if len(found) == 1 else None
+
+
+def _grid_method(chk, name):
+    """the method `name` of Grid, wherever the class or one of its bases defines it -> (FunctionDef, module, qualified name);
+    the anchor is reported as vanished when no class in reach defines it"""
+    cls = chk.mod(U.GRID).cls("Grid")
+    got = _find_method(chk, U.GRID, cls, name)
+    if got is None:
+        return chk.func(U.GRID, f"Grid.{name}"), U.GRID, f"Grid.{name}"         # raises "anchor vanished"
+    fn, rel, qual = got
+    return chk.func(rel, qual), rel, qual
+
+
+def _property_expression(chk, rel, cls_name, h):
+    """the expression the getter `h` of a property of class `cls_name` (module `rel`) stands for, in terms of the public properties
+    of the object:  `return E` -> E;  the lazily cached form `if self._c is None: self._c = E` / `return self._c` -> E, when the
+    cache `_c` is None initially and written nowhere else in the class, and everything E reads from self is written only by
+    __init__ (the value cannot go stale).  Private attributes `self._b` that a read-only accessor property `b` returns are
+    written as `self.b`.  None for any other getter"""
+    try:
+        cls = chk.repo.mod(rel).cls(cls_name)
+    except AnalysisError:
+        return None
+    slf = h.args.args[0].arg
+    body = [b for b in h.body if not (isinstance(b, ast.Expr) and isinstance(b.value, ast.Constant))]
+    value = None
+    if len(body) == 1 and isinstance(body[0], ast.Return) and body[0].value is not None:
+        value = body[0].value
+    elif len(body) == 2 and isinstance(body[0], ast.If) and not body[0].orelse and len(body[0].body) == 1 and isinstance(body[1], ast.Return) \
+            and isinstance(body[1].value, ast.Attribute) and src(body[1].value.value) == slf:
+        cache = body[1].value.attr
+        st = body[0].body[0]
+        if not (same_expr(body[0].test, f"{slf}.{cache} is None") and isinstance(st, ast.Assign) and len(st.targets) == 1
+                and src(st.targets[0]) == f"{slf}.{cache}"):
+            return None
+
+        def stores(attr):
+            """[(method name, value)] of the stores `<self>.attr = value` in the methods of the class (None value: another kind of store)"""
+            out = []
+            for m_ in cls.body:
+                if not isinstance(m_, ast.FunctionDef) or not m_.args.args:
+                    continue
+                me = m_.args.args[0].arg
+                for n_ in ast.walk(m_):
+                    if isinstance(n_, ast.Attribute) and n_.attr == attr and isinstance(n_.ctx, (ast.Store, ast.Del)) and src(n_.value) == me:
+                        p_ = parent(n_)
+                        out.append((m_.name, p_.value if isinstance(p_, ast.Assign) and len(p_.targets) == 1 and p_.targets[0] is n_ else None))
+            return out
+        if any(isinstance(n_, ast.Call) and _fname(n_) in ("setattr", "delattr") for n_ in ast.walk(cls)) or any(
+                isinstance(n_, ast.Attribute) and n_.attr == "__dict__" for n_ in ast.walk(cls)):
+            return None
+        cs = stores(cache)
+        inits = [v_ for m_name, v_ in cs if m_name == "__init__"]
+        class_level = [b_ for b_ in cls.body if isinstance(b_, ast.Assign) and any(isinstance(t_, ast.Name) and t_.id == cache for t_ in b_.targets)]
+        if len(cs) != len(inits) + 1 or not all(_is_const_none(v_) for v_ in inits) or (not inits and not (
+                len(class_level) == 1 and _is_const_none(class_level[0].value))):
+            return None
+        value = st.value
+        reads = {n_.attr for n_ in ast.walk(value) if isinstance(n_, ast.Attribute) and src(n_.value) == slf}
+        if any(isinstance(n_, ast.Call) and isinstance(n_.func, ast.Attribute) and src(n_.func.value) == slf for n_ in ast.walk(value)):
+            return None
+        if any(isinstance(n_, ast.Name) and n_.id == slf and not isinstance(parent(n_), ast.Attribute) for n_ in ast.walk(value)):
+            return None
+        for a_ in reads:
+            if any(m_name != "__init__" for m_name, _v in stores(a_)):
+                return None             # an input of the cached value can change after the cache was filled
+    if value is None:
+        return None
+    # private storage -> the accessor property that returns it
+    back = {}
+    for m_ in cls.body:
+        if isinstance(m_, ast.FunctionDef) and [src(d_) for d_ in m_.decorator_list] == ["property"] and len(m_.args.args) == 1:
+            b_ = [x for x in m_.body if not (isinstance(x, ast.Expr) and isinstance(x.value, ast.Constant))]
+            if len(b_) == 1 and isinstance(b_[0], ast.Return) and isinstance(b_[0].value, ast.Attribute) \
+                    and src(b_[0].value.value) == m_.args.args[0].arg:
+                back.setdefault(b_[0].value.attr, []).append(m_.name)
+    value = _clone(value)
+    _link(value)
+    for n_ in ast.walk(value):
+        if isinstance(n_, ast.Attribute) and isinstance(n_.ctx, ast.Load) and src(n_.value) == slf and len(back.get(n_.attr, [])) == 1:
+            n_.attr = back[n_.attr][0]
+    return value
+
+
 # ---- caller + callee as one unit -------------------------------------------------------------------------
 # A call of a function / method of the repository is replaced by the callee's body with the parameters bound to the arguments
 # (early returns turned into if/else arms, `if` tests decided by literal arguments folded), when the callee is a helper the
@@ -327,6 +509,57 @@ def _is_new_function(rel, qual):
     if not table:
         return False
     return qual not in table.get(rel, [])
+
+
+def _calls_new_code(chk, fn, rel=None):
+    """names of the functions / methods called in the (composed) function `fn` that the present tree defines and the reference tree
+    does not have under that name: code a refactoring introduced and the composition could not write back at the call.  A
+    diagnosis of the kind "X is never done" is not established while such a call remains - X may be done there"""
+    try:
+        from ..alpha import load_table
+        table = load_table().get("__functions__", {})
+    except Exception:
+        return ["?"]
+    if not table:
+        return ["?"]
+    ref = {q.split(".")[-1] for quals in table.values() for q in quals}
+    called = {_fname(n) for n in _own_walk(fn) if isinstance(n, ast.Call)} - {""} - ref
+    # attributes read that are new properties count as calls
+    called |= {n.attr for n in _own_walk(fn) if isinstance(n, ast.Attribute) and isinstance(n.ctx, ast.Load)} - ref
+    if not called:
+        return []
+    defined = set()
+    # the analysed units, and the modules the function's own module imports from (a module the reference tree does not have)
+    mods = list(U.ALL_UNITS) + ([t for t, _ in _imported_functions(chk, rel, fn).values()] if rel is not None else [])
+    for m in dict.fromkeys(mods):
+        if not chk.repo.exists(m):
+            continue
+        try:
+            tree = chk.repo.mod(m).tree
+        except AnalysisError:
+            return ["?"]
+        defined |= {n.name for n in ast.walk(tree) if isinstance(n, (ast.FunctionDef, ast.AsyncFunctionDef))}
+    return sorted(called & defined)
+
+
+def _ref_simple_names():
+    """the simple names of all functions / methods of the reference tree"""
+    try:
+        from ..alpha import load_table
+        table = load_table().get("__functions__", {})
+    except Exception:
+        return set()
+    return {q.split(".")[-1] for quals in table.values() for q in quals}
+
+
+def _always_leaves(stmts):
+    """the block ends, on every path, with a statement that leaves the enclosing block (return / raise / continue / break)"""
+    if not stmts:
+        return False
+    last = stmts[-1]
+    if isinstance(last, (ast.Return, ast.Raise, ast.Continue, ast.Break)):
+        return True
+    return isinstance(last, ast.If) and _always_leaves(last.body) and _always_leaves(last.orelse)
 
 
 def _always_exits(stmts):
@@ -464,8 +697,8 @@ class _Composer:
                             found.append((h, m, f"{c.name}.{h.name}"))
                         else:
                             return None
-        if len(found) != 1 or not _is_new_function(found[0][1], found[0][2]):
-            return None
+        if len(found) != 1 or not _is_new_function(found[0][1], found[0][2]) or name in _ref_simple_names():
+            return None             # (a method the reference tree has under this name in some class has only moved: not a new member)
         return found[0]
 
     def resolve(self, call, D):
@@ -507,15 +740,16 @@ class _Composer:
             if got is None or not got[0].args.args:
                 return None
             return got[0], f.value, got[1], got[2]
-        h = self._method(cls, f.attr)
-        if h is None:
+        got = _find_method(self.chk, rel, cls, f.attr)
+        if got is None:
             return None
+        h, rel, qual = got
         decs = [src(d) for d in h.decorator_list]
         if decs == ["staticmethod"]:
-            return h, None, rel, f"{cls.name}.{h.name}"
+            return h, None, rel, qual
         if decs or not bound or not h.args.args:
             return None
-        return h, f.value, rel, f"{cls.name}.{h.name}"
+        return h, f.value, rel, qual
 
     def eligible(self, h, rel, qual):
         if qual == self.origin and rel == self.rel:
@@ -529,8 +763,8 @@ class _Composer:
                 return False
         if h.name.startswith("__") and h.name.endswith("__"):
             return False
-        if _is_new_function(rel, qual):
-            return True
+        if _is_new_function(rel, qual) and (h.name not in _ref_simple_names() or "." not in qual):
+            return True             # (a method that only moved to a base class / mixin keeps its name: it is not a new helper)
         return self.policy == "h5" and _has_h5_role(h)
 
     def expand(self, call, h, self_expr, kind, target):
@@ -668,13 +902,15 @@ class _Composer:
                 if got is None:
                     return node
                 h = got[0]
-                body = [b for b in h.body if not (isinstance(b, ast.Expr) and isinstance(b.value, ast.Constant))]
-                if len(body) != 1 or not isinstance(body[0], ast.Return) or body[0].value is None or len(h.args.args) != 1:
+                if len(h.args.args) != 1:
                     return node
-                bound = {x.id for x in ast.walk(body[0].value) if isinstance(x, ast.Name) and isinstance(x.ctx, ast.Store)}
+                value = _property_expression(comp.chk, got[1], got[2].split(".")[0], h)
+                if value is None:
+                    return node
+                bound = {x.id for x in ast.walk(value) if isinstance(x, ast.Name) and isinstance(x.ctx, ast.Store)}
                 if bound & {x.id for x in ast.walk(node.value) if isinstance(x, ast.Name)}:
                     return node
-                new = _Sub({h.args.args[0].arg: node.value}).visit(_clone(body[0].value))
+                new = _Sub({h.args.args[0].arg: node.value}).visit(_clone(value))
                 for x in ast.walk(new):
                     ast.copy_location(x, node)
                 done.append(got[2])
@@ -730,6 +966,7 @@ class _Composer:
                 continue
             if not self._hoist(D):
                 break
+        self.done += self.inline_new_properties()          # properties read by the bodies written back above
         return self.done
 
     _failed: set = set()
@@ -1087,27 +1324,35 @@ def _first_match_loops(stmts, tag):
 
 def _continue_to_else(w):
     """in a loop body, `if C: A; continue` followed by R  ->  `if C: A else: R` (the early end of the iteration written as the
-    other arm), repeated; only at the top level of the loop body"""
-    changed = False
-    for lp in [n for n in ast.walk(w) if isinstance(n, (ast.For, ast.While))]:
-        for _ in range(10):
+    other arm), repeated; at the top level of the loop body and, recursively, inside the arms of an `if` that is the LAST
+    statement of such a block (whatever follows a `continue` there is the rest of the iteration as well)"""
+    changed = [False]
+
+    def conv(block):
+        """`block` is in tail position of an iteration: falling off its end ends the iteration"""
+        for _ in range(20):
             hit = None
-            for k, st in enumerate(lp.body):
-                if isinstance(st, ast.If) and st.body and isinstance(st.body[-1], ast.Continue) and k + 1 < len(lp.body) \
-                        and not any(isinstance(x, (ast.FunctionDef, ast.ClassDef)) for x in lp.body[k + 1:]):
+            for k, st in enumerate(block):
+                if isinstance(st, ast.If) and st.body and isinstance(st.body[-1], ast.Continue) and k + 1 < len(block) \
+                        and not any(isinstance(x, (ast.FunctionDef, ast.ClassDef)) for x in block[k + 1:]) \
+                        and not (st.orelse and isinstance(st.orelse[-1], ast.Continue)):
                     hit = k
                     break
             if hit is None:
                 break
-            st = lp.body[hit]
-            rest = lp.body[hit + 1:]
+            st = block[hit]
+            rest = block[hit + 1:]
             st.body = st.body[:-1] or [ast.copy_location(ast.Pass(), st)]
-            if st.orelse and isinstance(st.orelse[-1], ast.Continue):
-                break
             st.orelse = list(st.orelse) + rest
-            lp.body = lp.body[:hit + 1]
-            changed = True
-    return changed
+            del block[hit + 1:]
+            changed[0] = True
+        if block and isinstance(block[-1], ast.If):
+            conv(block[-1].body)
+            if block[-1].orelse:
+                conv(block[-1].orelse)
+    for lp in [n for n in ast.walk(w) if isinstance(n, (ast.For, ast.While))]:
+        conv(lp.body)
+    return changed[0]
 
 
 def _merge_common_tails(w):
@@ -1398,6 +1643,14 @@ def _fname(call):
 _WRAP = {"array", "asarray", "list", "tuple"}
 LAYOUT_PROPS = {"name", "ndims", "dims_order", "inv_dims_order", "starts", "ends", "shape", "fullShape", "max_block_shape", "size",
                 "max_block_size", "nprocs", "ranks"}          # properties of pygyro.model.layout.Layout (checked in run())
+# the properties whose MEANING this file knows (those of the reference Layout).  A diagnosis "this is not the block / the global
+# shape / the order" may only name one of these: a property a refactoring introduced (an alias, a cached block) has a meaning
+# the rules have not read, so a form that uses it is undecided, never wrong
+_REF_LAYOUT_PROPS = frozenset(LAYOUT_PROPS)
+
+
+def _known_prop(attr):
+    return attr in _REF_LAYOUT_PROPS and attr in LAYOUT_PROPS
 
 
 def _fixed_layout(text):
@@ -1511,7 +1764,9 @@ def _block_layout(ab):
     if isinstance(a, ast.Attribute) and isinstance(b, ast.Attribute):
         if a.attr == "starts" and b.attr == "ends" and src(a.value) == src(b.value):
             return "ok", src(a.value)
-        if a.attr not in LAYOUT_PROPS or b.attr not in LAYOUT_PROPS or (src(a.value) != src(b.value) and not (
+        # VIOLATED needs: both bounds are properties of the reference Layout (known meaning: only starts/ends delimit the local
+        # block), taken from one layout or from a layout fixed by a literal name.  Anything else: cannot decide
+        if not _known_prop(a.attr) or not _known_prop(b.attr) or (src(a.value) != src(b.value) and not (
                 _fixed_layout(src(a.value)) or _fixed_layout(src(b.value)))):
             return None, None           # not attributes this rule knows: cannot decide
         return "bad", (f"the block is taken as zip({src(a)}, {src(b)}), which is not [starts, ends) of one layout: a process writes/reads "
@@ -1553,6 +1808,22 @@ def _reader_facts(fn, D):
     return keys, akeys, loads
 
 
+def _file_reads_complete(fn, D):
+    """every access to an opened HDF5 file in `fn` is `<file>[<literal path>]`, not continued by a further literal key (a group) and
+    not made through .get / groups / visitors: the list of dataset paths read (`_reader_facts`) is then the complete list"""
+    for n in _own_walk(fn):
+        if isinstance(n, ast.Subscript) and _is_file_open(D.resolve(n.value)):
+            if not _is_const(n.slice, typ=str):
+                return False
+            p_ = parent(n)
+            if isinstance(p_, ast.Subscript) and p_.value is n and _is_const(p_.slice, typ=str):
+                return False
+        if isinstance(n, ast.Call) and isinstance(n.func, ast.Attribute) and n.func.attr in (
+                "get", "require_group", "create_group", "visit", "visititems", "items", "values", "keys") and _is_file_open(D.resolve(n.func.value)):
+            return False
+    return True
+
+
 def _eq_form(test):
     """-> (A, B, kind) with kind 'all-equal' / 'some-differ' / 'some-equal' / 'all-differ' describing when `test` is true"""
     neg = False
@@ -1581,16 +1852,17 @@ def _eq_form(test):
 
 
 def hdf5_agreement(chk):
-    w0 = chk.func(U.GRID, "Grid.writeH5Dataset")
-    r0 = chk.func(U.GRID, "Grid.loadFromFile")
+    # writer and loader are found by role: the methods an instance of Grid has under these names, in Grid or in a base / mixin
+    w0, w_rel, w_q = _grid_method(chk, "writeH5Dataset")
+    r0, r_rel, r_q = _grid_method(chk, "loadFromFile")
     s0 = chk.func(U.SETUPS, "setupFromFile")
-    w, r, s = _work(w0, chk, U.GRID, "h5"), _work(r0, chk, U.GRID, "h5"), _work(s0, chk, U.SETUPS, "h5")
+    w, r, s = _work(w0, chk, w_rel, "h5"), _work(r0, chk, r_rel, "h5"), _work(s0, chk, U.SETUPS, "h5")
     acc = _accessors(chk.mod(U.GRID).cls("Grid"))
     _write_back_accessors(w, acc, "Grid", True)
     _write_back_accessors(r, acc, "Grid", True)
     _write_back_accessors(s, acc, "Grid", False)
     Dw, Dr, Ds = _Defs(w), _Defs(r), _Defs(s)
-    KW, KR, KS = dict(file=U.GRID, func="Grid.writeH5Dataset"), dict(file=U.GRID, func="Grid.loadFromFile"), dict(file=U.SETUPS, func="setupFromFile")
+    KW, KR, KS = dict(file=w_rel, func=w_q), dict(file=r_rel, func=r_q), dict(file=U.SETUPS, func="setupFromFile")
 
     # ---- what the writer does
     creates = [n for n in _own_walk(w) if isinstance(n, ast.Call) and _fname(n) in ("create_dataset", "require_dataset")]
@@ -1621,12 +1893,22 @@ def hdf5_agreement(chk):
     ok = bad = None
     if wname is not None and _is_const(wname, typ=str) and rkeys and skeys:
         # every dataset path read on either read path (a path may be read more than once, e.g. attribute first, block later)
-        names = {wname.value.lstrip("/")} | {k.lstrip("/") for k in rkeys + skeys}
-        ok = len(names) == 1
-        if not ok:
-            show = lambda ks: "/".join(sorted({repr(k) for k in ks}))
-            bad = (f"the writer creates dataset '{wname.value}', loadFromFile reads {show(rkeys)}, setupFromFile reads {show(skeys)}: "
-                   "a checkpoint cannot be read back (KeyError)")
+        wn = wname.value.lstrip("/")
+        nr, ns = {k.lstrip("/") for k in rkeys}, {k.lstrip("/") for k in skeys}
+        if nr == {wn} and ns == {wn}:
+            ok = True
+        else:
+            # VIOLATED needs: (a) the dataset is created directly in the opened file (not inside a group, whose path would be
+            # composed of two keys); (b) a reader whose COMPLETE list of paths read (all literal, none continued into a group,
+            # no .get / visitor) does not contain the created path.  A reader that reads the created path and something else
+            # besides is a change of the file format this rule does not follow: cannot decide
+            direct = isinstance(creates[0].func, ast.Attribute) and _is_file_open(Dw.resolve(creates[0].func.value)) and "/" not in wn
+            culprits = [who for who, names, fn_, D_ in (("loadFromFile", nr, r, Dr), ("setupFromFile", ns, s, Ds))
+                        if wn not in names and _file_reads_complete(fn_, D_) and all("/" not in k for k in names)]
+            if direct and culprits:
+                show = lambda ks: "/".join(sorted({repr(k) for k in ks}))
+                bad = (f"the writer creates dataset '{wname.value}', loadFromFile reads {show(rkeys)}, setupFromFile reads {show(skeys)}: "
+                       f"{' and '.join(culprits)} cannot read a checkpoint back (KeyError)")
     chk.pat("W1-dataset-name", w0, "dataset 'dset'", ok, "writer and both readers use the same dataset path", bad, **KW)
 
     # ---- the block the writer writes
@@ -1640,17 +1922,22 @@ def hdf5_agreement(chk):
         shp = Dw.resolve(wshape)
         val = Dw.resolve(stores[0].value)
         val_ok = src(val) in ("self._f[:]", "self._f", "self._f[...]")
+        # assumptions of the two diagnoses below: the value written is the grid's own array `self._f` (val_ok), which has the shape
+        # of the current layout `self._layout` as long as the writer does not change the layout itself (no setLayout / no store
+        # to self._layout / self._f in the writer); the shape is a property of the reference Layout other than fullShape
+        steady = not any((isinstance(n, ast.Call) and _fname(n) in ("setLayout", "transpose", "swapaxes", "moveaxis"))
+                         or (isinstance(n, ast.Attribute) and isinstance(n.ctx, ast.Store) and n.attr in ("_layout", "_f")) for n in _own_walk(w))
         if wl != "self._layout":
-            if _fixed_layout(wl):
+            if _fixed_layout(wl) and val_ok and steady:
                 bad = (f"the block written is [starts, ends) of the fixed layout `{wl}`, but the data `self._f` is stored in the current "
                        "layout `self._layout`: the file does not hold the global array in the recorded order")
-        elif isinstance(shp, ast.Attribute) and src(shp.value) == wl and shp.attr != "fullShape" and shp.attr in LAYOUT_PROPS:
+        elif isinstance(shp, ast.Attribute) and src(shp.value) == wl and shp.attr != "fullShape" and _known_prop(shp.attr):
             bad = (f"the dataset is created with shape `{src(shp)}` instead of the global shape `{wl}.fullShape`: the blocks of the "
                    "other processes do not fit into the file")
         elif src(shp) == wl + ".fullShape" and val_ok:
             ok = True
     if ok and len(stores) == 1:
-        ok, bad = _always_done(w, stores[0], "the write of the local block", "writeH5Dataset")
+        ok, bad = _always_done(w, stores[0], "the write of the local block", "writeH5Dataset", chk)
     chk.pat("W1-hyperslab", w0, "dset[starts:ends] <-> _f", ok, "the file holds the global array in the current layout's order; each "
             "process writes exactly its [start,end) block of it", bad, **KW)
 
@@ -1682,14 +1969,22 @@ def hdf5_agreement(chk):
     if len(wattr) == 1 and wattr[0][0] is not None and wattr[0][1] is not None and _is_const(wattr[0][0], typ=str) and rakeys and sakeys:
         key = wattr[0][0].value
         data = _strip(Dw.resolve(wattr[0][1]))
+        # the writer's list of attributes is complete when every mention of `.attrs` in it is the one recognised store
+        w_complete = sum(1 for n in _own_walk(w) if isinstance(n, ast.Attribute) and n.attr == "attrs") == 1
         if set(rakeys) != {key} or set(sakeys) != {key}:
-            bad = (f"the writer records the attribute '{key}' but the readers read {sorted(set(rakeys) | set(sakeys))}: the stored "
-                   "layout is not found on loading (KeyError)")
+            # VIOLATED needs a reader that never reads the recorded attribute although it reads attributes (by literal key), and
+            # a writer that provably writes no other attribute.  A reader that reads the recorded attribute AND another one
+            # (an optional one read with .get, a version stamp) is not decided here
+            if w_complete and (key not in set(rakeys) or key not in set(sakeys)):
+                bad = (f"the writer records the attribute '{key}' but the readers read {sorted(set(rakeys) | set(sakeys))}: the stored "
+                       "layout is not found on loading (KeyError)")
         elif isinstance(data, ast.Attribute) and wl_kind == "ok":
             if src(data) == wl + ".dims_order":
                 ok = True
-            elif data.attr != "dims_order" and src(data.value) == wl and data.attr in LAYOUT_PROPS:
-                if reader_attr is not None and reader_attr.attr != data.attr:
+            elif data.attr != "dims_order" and src(data.value) == wl and _known_prop(data.attr):
+                # relational: what the writer records against what the loader compares the stored value with; both must be
+                # properties of the reference Layout (known to be different things) - an alias introduced by a refactoring is not
+                if reader_attr is not None and reader_attr.attr != data.attr and _known_prop(reader_attr.attr):
                     bad = (f"the writer records `{src(data)}` in the attribute '{key}', but loadFromFile compares the stored value with "
                            f"`{src(reader_attr)}`: "
                            "checkpoints are refused or read in the wrong order")
@@ -1719,7 +2014,10 @@ def hdf5_agreement(chk):
                      list(n.args) + [k.value for k in n.keywords]) for n in _own_walk(r))
         used = any(isinstance(n, ast.Name) and n.id in holders and isinstance(n.ctx, ast.Load) for n in _own_walk(r))
         tests_attr = any(isinstance(n, (ast.If, ast.While, ast.IfExp)) and _attr_reads(Dr.resolve(n.test)) for n in _own_walk(r))
-        if rloads and not passed_on and not handed and not tests_attr:
+        # VIOLATED ("never compared") needs every path by which a comparison could be made to be visible: the attribute value, the
+        # file and the dataset are not handed to any callable, no test reads the attribute, and no code introduced by a
+        # refactoring is called that the composition could not write back (the comparison may have moved there)
+        if rloads and not passed_on and not handed and not tests_attr and not _calls_new_code(chk, r, U.GRID):
             if not rakeys:
                 bad = ("the stored 'Layout' attribute is never read and nothing compares it with the layout of the grid: a checkpoint "
                        "written in another layout is loaded with permuted axes")
@@ -1744,7 +2042,7 @@ def hdf5_agreement(chk):
                 elif rl_kind == "ok" or src(b.value) == "self._layout":
                     ok = True
     if ok and len(guards) == 1:
-        ok, bad = _always_done(r, guards[0][2], "the comparison of the stored layout with the grid's", "loadFromFile")
+        ok, bad = _always_done(r, guards[0][2], "the comparison of the stored layout with the grid's", "loadFromFile", chk)
     chk.pat("W1-layout-guard", anchor if anchor is not r0 else r0, "assert (order == self._layout.dims_order).all()", ok,
             "loading into a grid whose layout differs from the stored one is refused", bad, **KR)
     ok = bad = None
@@ -1753,12 +2051,14 @@ def hdf5_agreement(chk):
     elif rl_kind == "ok":
         tgt = rloads[0].targets[0]
         if rl != "self._layout" and src(tgt.value) == "self._f":
-            if _fixed_layout(rl):
+            # assumes `self._f` has the shape of `self._layout`, not of the literal layout: true unless the loader itself switches
+            # the grid to that layout first (then the two are the same layout: not decided here)
+            if _fixed_layout(rl) and not any(isinstance(n, ast.Call) and _fname(n) == "setLayout" for n in _own_walk(r)):
                 bad = f"the block read is [starts, ends) of `{rl}` but it is stored into `self._f`, which has the shape of `self._layout`"
         elif src(tgt.value) == "self._f":
             ok = True
     if ok and len(rloads) == 1:
-        ok, bad = _always_done(r, rloads[0], "the read of the local block", "loadFromFile")
+        ok, bad = _always_done(r, rloads[0], "the read of the local block", "loadFromFile", chk)
     chk.pat("W1-hyperslab", r0, "loadFromFile: self._f <- dataset[starts:ends] of the same layout", ok,
             "each process reads the [start,end) block of its current layout, the layout the guard has compared with the file", bad, **KR)
 
@@ -1803,11 +2103,21 @@ def hdf5_agreement(chk):
                 larg = _arg(ctor, roles["layout"][0], roles["layout"][1])
                 larg_r = Ds.resolve(larg, within=_enclosing_block(sloads[0])) if larg is not None else None
                 mgr = _arg(ctor, roles["manager"][0], roles["manager"][1])
-                requested = lambda e_: _is_const(e_, typ=str) or any(_is_const(x, "layout") for x in ast.walk(e_))
+                # VIOLATED needs two layout names that provably can differ: one is the layout the CALLER requests
+                # (kwargs['layout'] / kwargs.pop('layout')), the other is not; or one is a literal name and the other is not, and no
+                # test around the construction / the load mentions that literal (a dispatch by cases `if name == 'poloidal': ...`
+                # makes the two equal).  Two different expressions alone are not enough
+                request = lambda e_: any(_is_const(x, "layout") for x in ast.walk(e_)) and "kwargs" in src(e_)
+                literal = lambda e_: _is_const(e_, typ=str)
+                around = [t_ for n_ in (sloads[0], ctor) for t_, p_, k_ in guards_of(n_, stop=s)]
                 if src(lay.func.value) != gobj and (mgr is None or src(lay.func.value) != src(mgr)):
                     pass                    # a layout of some other object: cannot decide
                 elif larg is not None and src(larg_r) != src(lay.args[0]):
-                    if requested(larg_r) != requested(lay.args[0]):
+                    lit = [e_ for e_ in (larg_r, lay.args[0]) if literal(e_)]
+                    if request(larg_r) != request(lay.args[0]) and not lit:
+                        bad = (f"the grid is created in layout `{src(larg)}` but filled with the block of layout `{src(lay.args[0])[:60]}`: "
+                               "the data are reinterpreted in another order of the dimensions")
+                    elif len(lit) == 1 and not any(_is_const(x, lit[0].value) for t_ in around for x in ast.walk(t_)):
                         bad = (f"the grid is created in layout `{src(larg)}` but filled with the block of layout `{src(lay.args[0])[:60]}`: "
                                "the data are reinterpreted in another order of the dimensions")
                 elif larg is not None and isinstance(larg, ast.Name):
@@ -1821,7 +2131,7 @@ def hdf5_agreement(chk):
     skip = ML is None and bad is not None            # the two rules below need the local holding the stored layout's name
     ok = bad = None
     if ML is not None:
-        ok, bad = _stored_layout_lookup(s, Ds, ML)
+        ok, bad = _stored_layout_lookup(s, Ds, ML, chk)
     if not skip:
         chk.pat("W1-layout-guard", s0, "setupFromFile: stored order -> standard layout name, else refuse", ok,
                 "the stored ordering selects the standard layout of that ordering; an unknown ordering is refused", bad, **KS)
@@ -1843,7 +2153,9 @@ def hdf5_agreement(chk):
         handed = any(isinstance(n, ast.Call) and _fname(n) not in ("pop", "get") and any(
             isinstance(x, ast.Name) and x.id in holders for a in list(n.args) + [k.value for k in n.keywords] for x in ast.walk(a))
             for st in blk for n in ast.walk(st))
-        if not sets and not handed:
+        # VIOLATED ("never") needs: the request is not handed to anything and no code of a refactoring is called that could make
+        # the change of layout (a method of the grid that loads AND switches)
+        if not sets and not handed and not _calls_new_code(chk, s, U.SETUPS):
             bad = ("the grid read from the checkpoint is never brought to the requested layout (no setLayout): the caller receives it in "
                    "the stored layout")
         elif len(req) == 1:
@@ -1864,7 +2176,7 @@ def hdf5_agreement(chk):
                 "the grid is brought to the requested start layout by setLayout, never by reinterpreting the data", bad, **KS)
 
 
-def _always_done(fn, node, what, who):
+def _always_done(fn, node, what, who, chk=None):
     """is the statement `node` of the working copy `fn` executed on every call (on every process)?  -> (True, None) when it depends
     on no condition, or only on a parameter whose default value lets it run; (None, diagnosis) when a parameter's default switches
     it off; (None, None) when it depends on any other condition (cannot decide)"""
@@ -1876,22 +2188,66 @@ def _always_done(fn, node, what, who):
     defaults.update({x.arg: d for x, d in zip(a.kwonlyargs, a.kw_defaults) if d is not None})
     stored = {n.id for n in _own_walk(fn) if isinstance(n, ast.Name) and isinstance(n.ctx, ast.Store)}
     verdict = True
+
+    def is_rank(x):
+        """a process rank: a name / attribute called rank or ..._rank / ...Rank, or a Get_rank() call (not `ranks`, `nranks`)"""
+        nm = x.id if isinstance(x, ast.Name) else x.attr if isinstance(x, ast.Attribute) else \
+            _fname(x) if isinstance(x, ast.Call) and not x.args else ""
+        return nm.lower() == "rank" or nm.lower().endswith("_rank") or nm.endswith("Rank")
     for t, pol, k in gs:
         if k not in ("if", "ifexp"):
             return None, None
-        ranky = [x for x in ast.walk(t) if (isinstance(x, ast.Name) and "rank" in x.id.lower()) or (isinstance(x, ast.Attribute) and "rank" in x.attr.lower())]
-        if ranky and isinstance(t, ast.Compare):
-            return None, (f"{what} is done only by the processes for which `{src(t)}` is {'true' if pol else 'false'}: the blocks of "
-                          "the other processes are not transferred, the global array in the file / the local data stay incomplete")
+        # VIOLATED (process subset) needs: the test compares a process rank with a literal number by == / != (one process against
+        # the others), and the other arm of that `if` does not transfer anything (no subscript store, no read_direct /
+        # write_direct): a different transfer by the other processes is not followed here
+        if isinstance(t, ast.Compare) and len(t.ops) == 1 and isinstance(t.ops[0], (ast.Eq, ast.NotEq)):
+            a_, b_ = t.left, t.comparators[0]
+            if _is_const(a_, typ=int):
+                a_, b_ = b_, a_
+            if is_rank(a_) and (_is_const(b_, typ=int) or (isinstance(b_, ast.Name) and b_.id in ("root", "master"))):
+                holder = next((p_ for p_ in _ancestors(node) if isinstance(p_, ast.If) and p_.test is t), None)
+                other = [] if holder is None else (holder.orelse if pol else holder.body)
+                moves = any((isinstance(x, ast.Subscript) and isinstance(x.ctx, ast.Store)) or (isinstance(x, ast.Call) and _fname(x) in (
+                    "read_direct", "write_direct", "copyto")) for s_ in other for x in ast.walk(s_))
+                if holder is None or moves:
+                    return None, None
+                return None, (f"{what} is done only by the processes for which `{src(t)}` is {'true' if pol else 'false'}: the blocks of "
+                              "the other processes are not transferred, the global array in the file / the local data stay incomplete")
         while isinstance(t, ast.UnaryOp) and isinstance(t.op, ast.Not):
             t, pol = t.operand, not pol
         if not (isinstance(t, ast.Name) and t.id in defaults and t.id not in stored and isinstance(defaults[t.id], ast.Constant)
                 and isinstance(defaults[t.id].value, (bool, type(None)))):
             return None, None
         if bool(defaults[t.id].value) != pol:
+            # VIOLATED needs: no call of the method anywhere in the repository passes the new argument (a caller that was
+            # changed together with the method keeps the transfer); call sites are found by the method's name
+            if chk is None or _some_call_passes(chk, who, fn, t.id):
+                return None, None
             return None, (f"{what} only runs when the new argument `{t.id}` is {'true' if pol else 'false'}, and its default is "
                           f"`{defaults[t.id].value!r}`: every existing call of {who} now skips it")
     return verdict, None
+
+
+def _some_call_passes(chk, method, fn, param):
+    """does some call `X.<method>(...)` / `<method>(...)` in the analysed units pass the parameter `param` of `fn` (by keyword, by
+    position, or through * / ** arguments)?  True also when no call site is found at all (nothing is known about the callers)"""
+    ps = [a.arg for a in fn.args.args]
+    k = ps.index(param) - (1 if ps and ps[0] in ("self", "cls") else 0) if param in ps else None
+    sites = 0
+    for rel in U.ALL_UNITS:
+        if not chk.repo.exists(rel):
+            continue
+        try:
+            tree = chk.repo.mod(rel).tree
+        except AnalysisError:
+            return True
+        for n in ast.walk(tree):
+            if isinstance(n, ast.Call) and _fname(n) == method:
+                sites += 1
+                if any(kw.arg is None or kw.arg == param for kw in n.keywords) or any(isinstance(a, ast.Starred) for a in n.args) \
+                        or (k is not None and len(n.args) > k):
+                    return True
+    return sites == 0
 
 
 def _grid_ctor_roles(chk):
@@ -1946,7 +2302,32 @@ def _enclosing_block(node):
     return None
 
 
-def _stored_layout_lookup(s, Ds, ML):
+def _module_value(chk, rel, name):
+    """the expression a module-level name of `rel` is bound to, when it is assigned exactly once at the top level of the module and
+    mentioned nowhere else as the target of a store / item store / method call that could change it (a module-level table)"""
+    try:
+        tree = chk.repo.mod(rel).tree
+    except AnalysisError:
+        return None
+    vals = [st.value for st in tree.body if isinstance(st, ast.Assign) and len(st.targets) == 1 and isinstance(st.targets[0], ast.Name)
+            and st.targets[0].id == name]
+    if len(vals) != 1:
+        return None
+    for n in ast.walk(tree):
+        if isinstance(n, ast.Name) and n.id == name:
+            if isinstance(n.ctx, (ast.Store, ast.Del)) and not any(isinstance(st, ast.Assign) and st.targets[0] is n for st in tree.body):
+                return None
+            p_ = getattr(n, "_parent", None)
+            if isinstance(p_, ast.Subscript) and isinstance(p_.ctx, (ast.Store, ast.Del)):
+                return None
+            if isinstance(p_, ast.Attribute) and p_.attr in ("update", "pop", "popitem", "clear", "setdefault", "__setitem__", "append", "extend", "insert", "remove", "sort", "reverse"):
+                return None
+        if isinstance(n, ast.Global) and name in n.names:
+            return None
+    return vals[0]
+
+
+def _stored_layout_lookup(s, Ds, ML, chk=None):
     """how the local `ML` gets the name of the standard layout whose order is the stored one -> (ok, bad)"""
     refuse = False
     mentions = False            # some other raise / assert talks about ML: an unrecognised way of refusing
@@ -1985,7 +2366,8 @@ def _stored_layout_lookup(s, Ds, ML):
                 return None, (f"the stored order selects a layout when `{src(i.test)}` ({kind.replace('-', ' ')}), not when every position "
                               "agrees: the data are read in the order of a layout they were not written in")
             if not refuse:
-                return None, (None if mentions else f"`{ML}` stays None for an unknown stored ordering and nothing refuses it")
+                return None, None           # audit: passing None on is refused later by the layout manager's look-up (KeyError),
+                                            # not silently accepted: no violation of the property can be stated
             if not any(_is_const(d[0], None) and isinstance(d[0], ast.Constant) and d[0].value is None for d in defs if d[0] is not None):
                 return None, None
             return True, None
@@ -2022,7 +2404,7 @@ def _stored_layout_lookup(s, Ds, ML):
                     return None, ("an unknown stored ordering is mapped to a default layout instead of being refused: the data are "
                                   "read in an order they were not written in")
                 if needs_refuse and not refuse:
-                    return None, (None if mentions else f"`{ML}` is None for an unknown stored ordering and nothing refuses it")
+                    return None, None       # (see above: a None name is refused by the look-up of the layout manager)
                 return True, None
     # form (b): inverted table {order: name}
     if len(defs) == 1 and defs[0][0] is not None:
@@ -2036,6 +2418,12 @@ def _stored_layout_lookup(s, Ds, ML):
             needs_refuse = True
         elif isinstance(v, ast.Subscript):
             table, key, needs_refuse = v.value, v.slice, False
+        if isinstance(table, ast.Name) and table.id not in Ds.defs and table.id not in Ds.params and chk is not None:
+            # a table kept at module level (built once, never changed): its defining expression is read instead
+            mv = _module_value(chk, U.SETUPS, table.id)
+            table = mv if mv is not None else table
+        if key is not None:
+            key = Ds.resolve(key)
         if isinstance(table, ast.DictComp) and len(table.generators) == 1 and not table.generators[0].ifs:
             g = table.generators[0]
             if isinstance(g.target, ast.Tuple) and len(g.target.elts) == 2 and isinstance(g.iter, ast.Call) and _fname(g.iter) == "items":
@@ -2045,7 +2433,7 @@ def _stored_layout_lookup(s, Ds, ML):
                         return None, ("an unknown stored ordering is mapped to a default layout instead of being refused: the data are "
                                       "read in an order they were not written in")
                     if needs_refuse and not refuse:
-                        return None, (None if mentions else f"`{ML}` is None for an unknown stored ordering and nothing refuses it")
+                        return None, None       # (see above: a None name is refused by the look-up of the layout manager)
                     return True, None
     return None, None
 
@@ -2085,8 +2473,8 @@ def _template(e):
                 out.append(("lit", str(p.value)))
             else:
                 sp = _spec_text(p.format_spec)
-                if sp is None:
-                    return None
+                if sp is None or getattr(p, "conversion", -1) not in (-1, 115):
+                    return None             # a nested / computed format spec, or !r / !a (another text than str()): not modelled
                 out.append(("fld", src(p.value), sp))
         return _merge(out)
     if isinstance(e, ast.BinOp) and isinstance(e.op, ast.Add):
@@ -2127,7 +2515,7 @@ def _template(e):
                 out.append(("lit", lit))
                 if field is None:
                     continue
-                if "{" in (spec or ""):
+                if "{" in (spec or "") or conv not in (None, "s"):
                     return None
                 if field == "":
                     arg = e.args[auto] if auto < len(e.args) else None
@@ -2221,6 +2609,15 @@ def _unwrap_names(x):
                         key = key or "reverse=?"
         x = x.args[0]
     return x, asc, key
+
+
+def _unwrap_num(text):
+    """source text of a number expression without int( ) / round( ) / float( ) around it"""
+    m = re.fullmatch(r"(?:int|round|float)\((.*)\)", text.strip())
+    while m:
+        text = m.group(1)
+        m = re.fullmatch(r"(?:int|round|float)\((.*)\)", text.strip())
+    return text.strip()
 
 
 def _const_index(sl):
@@ -2383,28 +2780,58 @@ def _request_test(test, req):
     return kind
 
 
+def _other_prefixes(chk, default):
+    """the literal name prefixes (third argument) the driver passes to the checkpoint writer, other than `default`"""
+    try:
+        mn = chk.repo.mod(U.DRIVER).func("main")
+    except (AnalysisError, Exception):
+        return []
+    out = []
+    for c in ast.walk(mn):
+        if _is_write(c):
+            a = _arg(c, 2, "nameConvention")
+            if _is_const(a, typ=str) and a.value != default and a.value not in out:
+                out.append(a.value)
+    return out
+
+
+def _callers_pass_plain_time(chk):
+    """every call `X.writeH5Dataset(folder, time, ...)` of the driver passes as time a name / number / arithmetic on those (after
+    local definitions are written out), i.e. not a string built by the caller; False when there is no call or one cannot be read"""
+    try:
+        mn = _work(chk.repo.mod(U.DRIVER).func("main"), chk, U.DRIVER)
+    except (AnalysisError, Exception):
+        return False
+    D = _Defs(mn)
+    calls = [c for c in _own_walk(mn) if _is_write(c)]
+    if not calls:
+        return False
+    for c in calls:
+        a = _arg(c, 1, "time")
+        if a is None:
+            return False
+        a = D.resolve(a, within=_enclosing_block(c))
+        if not _arith(a):
+            return False
+        if any(isinstance(x, ast.Constant) and isinstance(x.value, str) for x in ast.walk(a)):
+            return False
+    return True
+
+
 def file_names(chk):
-    w0 = chk.func(U.GRID, "Grid.writeH5Dataset")
-    r0 = chk.func(U.GRID, "Grid.loadFromFile")
+    w0, w_rel, w_q = _grid_method(chk, "writeH5Dataset")
+    r0, r_rel, r_q = _grid_method(chk, "loadFromFile")
     s0 = chk.func(U.SETUPS, "setupFromFile")
-    w, r, s = _work(w0, chk, U.GRID, "h5"), _work(r0, chk, U.GRID, "h5"), _work(s0, chk, U.SETUPS, "h5")
+    w, r, s = _work(w0, chk, w_rel, "h5"), _work(r0, chk, r_rel, "h5"), _work(s0, chk, U.SETUPS, "h5")
     Dw, Dr, Ds = _Defs(w), _Defs(r), _Defs(s)
-    KW, KR, KS = dict(file=U.GRID, func="Grid.writeH5Dataset"), dict(file=U.GRID, func="Grid.loadFromFile"), dict(file=U.SETUPS, func="setupFromFile")
+    KW, KR, KS = dict(file=w_rel, func=w_q), dict(file=r_rel, func=r_q), dict(file=U.SETUPS, func="setupFromFile")
     pw, pr, ps = _params(w), _params(r), _params(s)
 
-    # ---- default name convention (signature comparison)
+    # ---- default name convention (signature comparison; reported below, once the roles of the parameters are known)
     d1 = {a.arg: d for a, d in zip(w.args.args[-len(w.args.defaults):], w.args.defaults)} if w.args.defaults else {}
     d2 = {a.arg: d for a, d in zip(r.args.args[-len(r.args.defaults):], r.args.defaults)} if r.args.defaults else {}
     a, b = d1.get(pw[3]) if len(pw) > 3 else None, d2.get(pr[3]) if len(pr) > 3 else None
-    ok = bad = None
-    default = None
-    if _is_const(a, typ=str) and _is_const(b, typ=str):
-        ok = a.value == b.value
-        default = a.value
-        if not ok:
-            bad = f"default name of the writer is '{a.value}', of the loader '{b.value}': a plain load does not find a plain save"
-    chk.pat("W2-file-name-family", r0, "nameConvention default", ok, "writer and loader share the default prefix that the restart globs for",
-            bad, **KR)
+    default = a.value if _is_const(a, typ=str) and _is_const(b, typ=str) else None
 
     # ---- the family of names the writer produces
     wopen = [n for n in _own_walk(w) if _is_file_open(n) and n.args]
@@ -2417,9 +2844,24 @@ def file_names(chk):
     rfile, rdefs = _chosen_file(r, Dr)
     sfile, sdefs = _chosen_file(s, Ds)
 
-    def classify(defs, D, roles):
-        """definitions of the opened file's name -> explicit [(canon, stmt, block)], chosen [(kind, pattern canon or None, stmt, block)], other"""
+    def classify(defs, D, roles, time_like=lambda e_: False):
+        """definitions of the opened file's name -> explicit [(canon, stmt, block)], chosen [(kind, pattern canon or None, stmt, block)], other.
+        The fields of an explicit name get their role from what they are: a parameter with a known role, the folder parameter
+        passed through a path normaliser (-> F), the requested time (`time_like`, also through int() / round()) (-> T); a name
+        with a field of any other kind is not compared (-> other)"""
         explicit, chosen, other = [], [], []
+
+        def with_roles(t):
+            rl = dict(roles)
+            folder = next((k for k, v in roles.items() if v == "F"), None)
+            for p_ in t:
+                if p_[0] != "fld" or p_[1] in rl:
+                    continue
+                if time_like(p_[1]):
+                    rl[p_[1]] = "T"
+                elif folder is not None and re.fullmatch(r"(?:os\.path\.(?:abspath|normpath|realpath|expanduser)|os\.fspath|str|Path)\(" + re.escape(folder) + r"\)", p_[1]):
+                    rl[p_[1]] = "F"
+            return rl
         for v, st, blk in defs:
             if _is_const_none(v):
                 continue
@@ -2443,8 +2885,8 @@ def file_names(chk):
                 chosen.append((kind, pat, st, blk))
                 continue
             t = _template(D.resolve(v, within=blk))
-            if t is not None and any(p[0] == "lit" for p in t) and any(p[0] == "fld" for p in t):
-                explicit.append((_canon(t, roles), st, blk))
+            if t is not None and any(p[0] == "lit" for p in t) and any(p[0] == "fld" for p in t) and "{?" not in _canon(t, with_roles(t), other="?"):
+                explicit.append((_canon(t, with_roles(t), other="?"), st, blk))
             else:
                 other.append(st)
         return explicit, chosen, other
@@ -2454,8 +2896,30 @@ def file_names(chk):
     if len(pr) > 2:
         rroles[pr[2]] = "T"
     sroles = {ps[0]: "F"}
-    rex, rch, roth = classify(rdefs, Dr, rroles)
-    sex, sch, soth = classify(sdefs, Ds, sroles)
+    rex, rch, roth = classify(rdefs, Dr, rroles, lambda e_: len(pr) > 2 and _unwrap_num(e_) == pr[2])
+    def is_request_text(e_):
+        """the field is the time the caller requests: kwargs['timepoint'] / kwargs.pop('timepoint'...) / .get, possibly through
+        int() / round(), or a local one of whose definitions is that"""
+        e_ = _unwrap_num(e_)
+        if "kwargs" in e_ and ("'timepoint'" in e_ or '"timepoint"' in e_):
+            return True
+        return e_.isidentifier() and any(v_ is not None and "kwargs" in src(v_) and any(_is_const(x, "timepoint") for x in ast.walk(v_))
+                                         for v_, _st in Ds.defs.get(e_, []))
+    sex, sch, soth = classify(sdefs, Ds, sroles, is_request_text)
+
+    # VIOLATED needs: the two parameters compared really are the name prefix on both sides - the writer's fourth parameter is the
+    # {N} field of the name it builds, the loader's fourth parameter the {N} field of a name / pattern it builds (roles read off
+    # the templates, not assumed from the position)
+    ok = bad = None
+    if _is_const(a, typ=str) and _is_const(b, typ=str):
+        n_in_writer = wt is not None and any(p_[0] == "fld" and p_[1] == pw[3] for p_ in wt)
+        n_in_reader = any("{N" in c for c, *_ in rex) or any(pat_ is not None and "{N" in pat_ for _k, pat_, *_ in rch)
+        if a.value == b.value:
+            ok = True
+        elif n_in_writer and n_in_reader:
+            bad = f"default name of the writer is '{a.value}', of the loader '{b.value}': a plain load does not find a plain save"
+    chk.pat("W2-file-name-family", r0, "nameConvention default", ok, "writer and loader share the default prefix that the restart globs for",
+            bad, **KR)
 
     ok = bad = None
     padded = None
@@ -2463,7 +2927,9 @@ def file_names(chk):
         pre, spec, suf = fam
         padded = bool(_ZERO_PAD.match(_norm_spec(spec)))
         by_name = any(k in ("max", "min") for k, *_ in rch + sch)
-        if _norm_spec(spec) == "" and by_name:
+        # VIOLATED (no padding) needs: the value formatted is the number the callers pass, not a text a caller has already padded
+        # (caller + callee are one unit): every call of the writer in the driver passes a time that is not built as a string
+        if _norm_spec(spec) == "" and by_name and _callers_pass_plain_time(chk):
             bad = (f"the time is written without padding (`{wcanon}`) while the latest checkpoint is chosen by name order: with "
                    "checkpoints at times 9 and 10 the name of time 9 is the largest, so a restart resumes from an older state")
         elif padded and len(rex) == 1 and len(sex) == 1 and default is not None:
@@ -2483,8 +2949,10 @@ def file_names(chk):
             + (note if ok else ""), bad, **KW)
 
     # ---- latest checkpoint: the largest NAME of the family (= largest time, by the padding)
-    def latest(chosen, who, canon_w, anchor, construct, K):
+    def latest(chosen, who, canon_w, anchor, construct, K, fn_=None):
         ok = bad = None
+        sorts_elsewhere = fn_ is None or any(isinstance(n, ast.Call) and _fname(n) in ("sort", "sorted", "natsorted", "reverse", "reversed", "heapify",
+                                                                                         "nlargest", "nsmallest") for n in _own_walk(fn_))
         if len(chosen) == 1 and fam is not None and padded is not False:
             kind, pat, st, blk = chosen[0]
             pre = _time_field(canon_w)[0]
@@ -2492,9 +2960,12 @@ def file_names(chk):
                 bad = (f"{who} takes the most recently WRITTEN file (`{getattr(st, "_shown", src(st))[:70]}`), not the file of the largest time: after a run was "
                        "restarted from an earlier time point (or an old checkpoint was copied/rewritten) the newest file is not the "
                        "latest state, and the time parsed from its name is reported as the resume time")
-            elif kind == "min":
+            # VIOLATED (smallest name / listing order) needs: what is selected from IS the listing of the files (its pattern was
+            # read: `pat`), not a local this rule could not follow (a list sorted or keyed somewhere else), and the list is not
+            # sorted in place anywhere in the function other than where the selection rule looked
+            elif kind == "min" and pat is not None:
                 bad = f"{who} takes the smallest name (`{getattr(st, "_shown", src(st))[:70]}`): the OLDEST checkpoint is loaded instead of the latest"
-            elif kind == "listing-order":
+            elif kind == "listing-order" and pat is not None and not sorts_elsewhere:
                 bad = (f"{who} takes an element of the unsorted directory listing (`{getattr(st, "_shown", src(st))[:70]}`): glob returns names in arbitrary "
                        "order, so any checkpoint may be loaded")
             elif kind == "key" and getattr(kind, "fn", None) is not None and isinstance(kind.fn, ast.Lambda) and len(kind.fn.args.args) == 1 \
@@ -2512,11 +2983,30 @@ def file_names(chk):
                 star = pat.find("*")
                 if star < 0 or "{?" in pat or any(ch in pat for ch in "[]?") or pat.count("*") != 1:
                     pass                    # character classes / several wildcards: the set of names is not compared here
-                elif pat[:star] != pre or not suf_ok(pat[star + 1:]):
-                    bad = (f"{who} lists `{pat}` but the checkpoints are named `{canon_w}`: the pattern does not select exactly that "
-                           "family (other files, e.g. the potential's, can be the largest name, or no checkpoint matches)")
-                else:
+                elif pat[:star] == pre and suf_ok(pat[star + 1:]):
                     ok = True
+                else:
+                    # VIOLATED needs one of three provable relations between the set of names the pattern lists and the family
+                    # the writer produces (texts before / after the single wildcard compared with the texts around the time
+                    # field): (1) no name of the family matches; (2) the pattern is narrower by literal text after the family's
+                    # prefix (some checkpoints are never listed); (3) the pattern is wider and also lists the files the driver
+                    # writes with its other name prefix (the potential).  A wider pattern that lists nothing else the driver
+                    # writes selects the same file: not a violation, left undecided
+                    head, tail = pat[:star], pat[star + 1:]
+                    full_suffix = fam[2]
+                    tail_fits = tail == "" or full_suffix.endswith(tail)
+                    if not (pre.startswith(head) or head.startswith(pre)) or (not tail_fits and "{" not in tail and not re.fullmatch(r"\d*" + re.escape(full_suffix), tail)):
+                        bad = (f"{who} lists `{pat}` but the checkpoints are named `{canon_w}`: no checkpoint of the family matches the "
+                               "pattern (nothing, or only foreign files, can be chosen)")
+                    elif head.startswith(pre) and head != pre and tail_fits:
+                        bad = (f"{who} lists `{pat}` but the checkpoints are named `{canon_w}`: the pattern only lists the names whose time "
+                               f"field begins with `{head[len(pre):]}`, the latest checkpoint may not be among them")
+                    elif pre.startswith(head) and tail_fits:
+                        others = _other_prefixes(chk, default)
+                        hit = [o for o in others if "{N}" in wcanon and wcanon.replace("{N}", o).startswith(head) and "{N}" not in head]
+                        if hit:
+                            bad = (f"{who} lists `{pat}` but the checkpoints are named `{canon_w}`: the pattern also lists the files the driver "
+                                   f"writes under the name '{hit[0]}' (same folder, same time format), which can be the largest name")
         if not (fam is not None and padded is False):
             chk.pat("W2-latest-selection", anchor, construct, ok,
                     "the latest checkpoint is the largest name among exactly the files of the family (zero-padded, so the largest time)",
@@ -2525,9 +3015,9 @@ def file_names(chk):
     def suf_ok(rest):
         return rest == "" or (fam is not None and "*" not in rest and fam[2].endswith(rest))
     if fam is not None:
-        latest(rch, "loadFromFile", wcanon, r0, "loadFromFile: no time given -> file of the largest time", KR)
+        latest(rch, "loadFromFile", wcanon, r0, "loadFromFile: no time given -> file of the largest time", KR, r)
         latest(sch, "the restart", wcanon.replace("{N}", default or "{N}"), s0,
-               "max(list_of_files); t = int(name after last '_' before '.')", KS)
+               "max(list_of_files); t = int(name after last '_' before '.')", KS, s)
     else:
         chk.ob("W2-latest-selection", s0, "max(list_of_files); t = int(name after last '_' before '.')", None,
                "the writer's name expression is not recognised: cannot decide", **KS)
@@ -2562,7 +3052,10 @@ def file_names(chk):
                             return self.generic_visit(node)
                     e = Alias().visit(e)
                 ok, bad = _time_parser(e, sfile, fam[0].replace("{N}", default or "{N}"), fam[2])
-        elif len(rets) == 1 and _is_const(rets[0].value.elts[2], typ=(int, float)) and not isinstance(rets[0].value.elts[2].value, bool):
+        # VIOLATED (literal time) needs: this is the ONLY way the function returns (no other `return`, of any form), the file chosen
+        # among the checkpoints is opened on the way, and no code of a refactoring is called that could return for it
+        elif len(rets) == 1 and _is_const(rets[0].value.elts[2], typ=(int, float)) and not isinstance(rets[0].value.elts[2].value, bool) \
+                and len([n for n in _own_walk(s) if isinstance(n, ast.Return)]) == 1 and not _calls_new_code(chk, s, U.SETUPS):
             bad = (f"the restart returns the literal time {rets[0].value.elts[2].value!r} whatever checkpoint was loaded: the driver "
                    "resumes its clock and step index from that value instead of the checkpoint's time")
     chk.pat("W2-latest-selection", s0, "restart: returned time = int(piece of the chosen name between separator and extension)", ok,
@@ -2597,7 +3090,12 @@ def file_names(chk):
                 bad, **K)
 
     def loader_req(e_, ifnode):
-        return "None" if (isinstance(e_, ast.Name) and len(pr) > 2 and e_.id == pr[2]) else None
+        """the loader's time parameter -> source of the value it has when no time is requested (its default in the signature)"""
+        if not (isinstance(e_, ast.Name) and len(pr) > 2 and e_.id == pr[2]):
+            return None
+        if any(isinstance(x, ast.Name) and x.id == pr[2] and isinstance(x.ctx, ast.Store) for x in _own_walk(r)):
+            return None             # reassigned in the body: the test does not see the caller's value
+        return src(d2[pr[2]]) if pr[2] in d2 else None
 
     def restart_req(e_, ifnode):
         """is e_ the popped request? -> source of its default ('None' when absent/None)"""
@@ -2907,6 +3405,33 @@ def _conjuncts(t):
     return [t]
 
 
+def _flatten_pair_comprehension(c):
+    """[E(a, b) for a, b in ((A(x), B(x)) for x in S if C1) if C2(a, b)]  ->  [E(A(x), B(x)) for x in S if C1 if C2(A(x), B(x))]:
+    a comprehension over a generator of tuples, with the tuple written out (the elements are expressions without side effects
+    evaluated once per x either way: names, attribute reads, getattr calls)"""
+    if not (isinstance(c, (ast.ListComp, ast.GeneratorExp)) and len(c.generators) == 1 and isinstance(c.generators[0].target, ast.Tuple)
+            and all(isinstance(t, ast.Name) for t in c.generators[0].target.elts)):
+        return c
+    g = c.generators[0]
+    inner = g.iter
+    if not (isinstance(inner, (ast.ListComp, ast.GeneratorExp)) and len(inner.generators) == 1 and isinstance(inner.generators[0].target, ast.Name)
+            and isinstance(inner.elt, ast.Tuple) and len(inner.elt.elts) == len(g.target.elts)):
+        return c
+    pure = lambda e: all(isinstance(x, (ast.Name, ast.Attribute, ast.Constant, ast.Call, ast.expr_context)) and (
+        not isinstance(x, ast.Call) or _fname(x) == "getattr") for x in ast.walk(e))
+    if not all(pure(e) for e in inner.elt.elts):
+        return c
+    var = inner.generators[0].target.id
+    if var in {t.id for t in g.target.elts}:
+        return c
+    m = {t.id: e for t, e in zip(g.target.elts, inner.elt.elts)}
+    sub = lambda e: _Sub(m).visit(_clone(e))
+    new = c.__class__(elt=sub(c.elt), generators=[ast.comprehension(
+        target=ast.Name(id=var, ctx=ast.Store()), iter=inner.generators[0].iter,
+        ifs=list(inner.generators[0].ifs) + [sub(t) for t in g.ifs], is_async=0)])
+    return ast.fix_missing_locations(ast.copy_location(new, c))
+
+
 def _printer(fn, D, required=None, methods=(), table_keys=None, optional=()):
     """static classification of Constants.__str__ -> (ok, bad): is the text a JSON object of exactly the public data attributes?
     `required`: the public data attributes of the class (class-level values and properties); `table_keys(name)`: the keys of a
@@ -2934,6 +3459,8 @@ def _printer(fn, D, required=None, methods=(), table_keys=None, optional=()):
             loops.append(n)
     joins = [n for n in ast.walk(ret) if isinstance(n, ast.Call) and isinstance(n.func, ast.Attribute) and n.func.attr == "join"
              and isinstance(n.func.value, ast.Constant) and len(n.args) == 1]
+    for j in joins:
+        j.args[0] = _flatten_pair_comprehension(j.args[0])
     dumps = ret if isinstance(ret, ast.Call) and _fname(ret) == "dumps" and len(ret.args) >= 1 and isinstance(ret.args[0], ast.DictComp) else None
     if dumps is not None:
         dc = dumps.args[0]
@@ -3045,6 +3572,10 @@ def _printer(fn, D, required=None, methods=(), table_keys=None, optional=()):
 
     # ---- which attributes
     if source == "dict":
+        # VIOLATED needs: the class does keep constants outside the instance dictionary (class-level values / settable properties:
+        # `required`), which vars(self) does not list
+        if not required:
+            return None, None
         return None, ("only the instance dictionary is printed (vars(self) / self.__dict__): constants that live on the class and the "
                       "properties rMin, rMax, npts, splineDegrees are missing from the saved file, a restart reads the defaults for them")
     texts = [src(c) for c in conds]
@@ -3193,17 +3724,38 @@ def constants_round_trip(chk):
                     ws.add(n.args[1].value)
             writes[st.name] = ws
     plain = set()
+    containers = set()          # class-level names bound to a literal collection of strings: tables of names, not constants
     for st in cls.body:
         if isinstance(st, ast.Assign):
             for t in st.targets:
                 if isinstance(t, ast.Name) and not t.id.startswith("_"):
                     plain.add(t.id)
+                    if _string_keys(st.value) is not None:
+                        containers.add(t.id)
+        elif isinstance(st, ast.AnnAssign) and isinstance(st.target, ast.Name) and not st.target.id.startswith("_") and st.value is not None:
+            plain.add(st.target.id)
+            if _string_keys(st.value) is not None:
+                containers.add(st.target.id)
     keys = plain | set(writes)
     n = 0
     for k, ws in sorted(writes.items()):
         own = {"_" + k}
         foreign = {a for a in ws - own if a in keys}
         n += 1
+        # VIOLATED needs: the write of the other key is unconditional with respect to that key - a write made only under a test
+        # that reads the key itself (`if self.rp is None: self.rp = ...`: fill it while it is unset) keeps a value given
+        # explicitly and commutes; such a setter is not decided by the write sets
+        setter = next(st for st in cls.body if isinstance(st, ast.FunctionDef) and st.name == k and any(src(d).endswith(".setter") for d in st.decorator_list))
+        filled_only = foreign and all(
+            any(isinstance(x, ast.Attribute) and x.attr == a and src(x.value) == "self" for t_, p_, k_ in guards_of(n_, stop=setter) for x in ast.walk(t_))
+            for a in foreign for n_ in ast.walk(setter)
+            if isinstance(n_, ast.Attribute) and n_.attr == a and isinstance(n_.ctx, ast.Store) and src(n_.value) == "self") \
+            and not any(isinstance(n_, ast.Call) and _fname(n_) == "setattr" for n_ in ast.walk(setter))
+        if filled_only:
+            chk.ob("G3-setters-commute", mod.func(f"Constants.{k}.setter"), f"Constants.{k}.setter writes {sorted(ws)}", None,
+                   f"setting `{k}` writes {sorted(foreign)} only under a test on that attribute itself: whether an explicit value survives "
+                   "in every key order is not decided by the write sets", file=U.CONSTANTS, func=f"Constants.{k}.setter")
+            continue
         chk.ob("G3-setters-commute", mod.func(f"Constants.{k}.setter"), f"Constants.{k}.setter writes {sorted(ws)}", not foreign,
                f"setting `{k}` only writes its own storage: the result of reading a parameter file does not depend on key order"
                if not foreign else f"setting `{k}` also overwrites the independent key(s) {sorted(foreign)}: a file that gives `{sorted(foreign)[0]}` "
@@ -3219,7 +3771,7 @@ def constants_round_trip(chk):
     methods = {st.name for st in cls.body if isinstance(st, ast.FunctionDef)} - getters
     # attributes that can be SET independently must be stored (class-level values, properties with a setter); a read-only
     # property is a function of the others and may be left out
-    ok, bad = _printer(st_, _Defs(st_), required=plain | (getters & set(writes)), methods=methods, optional=getters,
+    ok, bad = _printer(st_, _Defs(st_), required=(plain - containers) | (getters & set(writes)), methods=methods, optional=getters | containers,
                        table_keys=lambda name: _module_table_keys(chk, U.CONSTANTS, name))
     chk.pat("G3-printer", st0, "__str__: every public non-callable attribute", ok,
             "the text is `{` + one `\"key\":value` entry per name of dir(self) that is public and not callable, comma separated, + `}`: "
@@ -3244,17 +3796,25 @@ def constants_round_trip(chk):
                   and src(n.func.value) == cobj]
         lp = loops[0]
         inside = {id(x) for x in ast.walk(lp)}
-        early = [c for c in dcalls if id(c) in inside or _pos(c) < _pos(lp)]
+        # a call counts as EARLY (VIOLATED) only when it certainly runs before the file has been read completely: before the
+        # loop, or in the loop body, and under no condition at all (a call under a test - `if not pending:` - may be the loop's
+        # own way of finishing: cannot decide)
+        early_all = [c for c in dcalls if id(c) in inside or _pos(c) < _pos(lp)]
+        early = [c for c in early_all if not [g_ for g_ in guards_of(c, stop=gc) if g_[2] in ("if", "ifexp")]
+                 and not any(isinstance(p_, (ast.For, ast.While)) and p_ is not lp and id(p_) in inside for p_ in _ancestors(c))]
+        # the meaning of the constructor's first argument is read off Constants.__init__: `if <first parameter>: ... set_defaults()`.
+        # Without that the flag's meaning is unknown and nothing is said about it
+        init = next((m_ for m_ in cls.body if isinstance(m_, ast.FunctionDef) and m_.name == "__init__"), None)
+        uses_flag = init is not None and len(init.args.args) >= 2 and not (init.args.vararg or init.args.kwarg) and [
+            n_ for n_ in init.body if isinstance(n_, ast.If) and same_expr(n_.test, init.args.args[1].arg) and any(
+                isinstance(c_, ast.Call) and _fname(c_) == "set_defaults" for x_ in n_.body for c_ in ast.walk(x_))]
+        if a0 is not None and (not uses_flag or (not ctor.args and [k_.arg for k_ in ctor.keywords] != [init.args.args[1].arg])):
+            a0 = ast.Name(id="<unknown>", ctx=ast.Load())
         if a0 is None:
             # the constructor's own default decides (today `setup=True`: defaults installed)
-            init = next((m_ for m_ in cls.body if isinstance(m_, ast.FunctionDef) and m_.name == "__init__"), None)
-            if init is not None and len(init.args.args) >= 2 and init.args.defaults and len(init.args.defaults) == len(init.args.args) - 1 \
+            if uses_flag and init.args.defaults and len(init.args.defaults) == len(init.args.args) - 1 \
                     and not ctor.args and not ctor.keywords:
                 a0 = init.args.defaults[0]
-                uses_flag = [n_ for n_ in init.body if isinstance(n_, ast.If) and same_expr(n_.test, init.args.args[1].arg) and any(
-                    isinstance(c_, ast.Call) and _fname(c_) == "set_defaults" for x_ in n_.body for c_ in ast.walk(x_))]
-                if not uses_flag:
-                    a0 = None
             if a0 is None:
                 a0 = ast.Name(id="<unknown>", ctx=ast.Load())
         if _is_const(a0, True):
@@ -3263,7 +3823,7 @@ def constants_round_trip(chk):
         elif early:
             bad = ("defaults are installed before the file has been read completely: an expression that refers to a key given later in the "
                    "file is evaluated with the default instead of being deferred (result depends on key order)")
-        elif _is_const(a0, False) and dcalls and all(not guards_of(c) for c in dcalls):
+        elif _is_const(a0, False) and dcalls and not early_all and all(not guards_of(c) for c in dcalls):
             ok = True
     chk.pat("G3-defaults-after-file", gc0, "set_defaults() after the parse loop", ok,
             "expressions in the file are evaluated against values given in the file (a key that is not yet read defers the "
@@ -3285,8 +3845,18 @@ def constants_round_trip(chk):
         res = evs[0].targets[0].id
         tests = [n for n in ast.walk(loops[0]) if isinstance(n, ast.If) and (same_expr(n.test, f"{res} is None") or same_expr(n.test, f"{res} is not None"))]
         if not tests:
-            if not any(isinstance(n, (ast.If, ast.IfExp, ast.While, ast.Assert)) and any(isinstance(x, ast.Name) and x.id == res for x in ast.walk(n.test))
-                       for n in ast.walk(loops[0])):
+            # VIOLATED needs: every read of the result in the whole function is the value stored by setattr(obj, key, <result>) (or
+            # the right-hand side of an attribute / item store): it is then provably never examined.  A result compared into a
+            # flag, passed to a helper, filtered in a comprehension ... is an examination this rule cannot follow
+            reads = [x for x in ast.walk(gc) if isinstance(x, ast.Name) and x.id == res and isinstance(x.ctx, ast.Load)]
+
+            def only_stored(x):
+                p_ = parent(x)
+                if isinstance(p_, ast.Call) and _fname(p_) == "setattr" and len(p_.args) == 3 and p_.args[2] is x:
+                    return True
+                return isinstance(p_, ast.Assign) and p_.value is x and all(isinstance(t_, (ast.Attribute, ast.Subscript)) for t_ in p_.targets)
+            if reads and all(only_stored(x) for x in reads) and not any(isinstance(n, (ast.If, ast.IfExp, ast.While, ast.Assert)) and any(
+                    isinstance(x, ast.Name) and x.id == res for x in ast.walk(n.test)) for n in ast.walk(loops[0])):
                 bad = ("the result of eval_expr is never tested: an expression whose operands are not yet known is stored as None "
                        "instead of being retried")
         elif len(tests) == 1:
@@ -3346,9 +3916,22 @@ def constants_round_trip(chk):
                             and isinstance(a.test.ops[0], (ast.Lt, ast.Gt)) and "len(" in src(a.test)]
                 uses = [x for st_ in ast.walk(outer) if isinstance(st_, ast.stmt) and not isinstance(st_, (ast.Assert, ast.While, ast.For, ast.If))
                         and st_ is not deferred[0] for x in ast.walk(st_) if isinstance(x, ast.Name) and x.id == pend]
-                if not retried and not uses:
+                # VIOLATED ("never taken up again") needs the whole life of the container to be visible: apart from its creation it
+                # is mentioned nowhere in the function outside this loop (a second loop, a helper, a return value would take the
+                # entries up there), and no code of a refactoring is called that could
+                in_outer_ids = {id(x) for x in ast.walk(outer)}
+                outside = [x for x in ast.walk(gc) if isinstance(x, ast.Name) and x.id == pend and id(x) not in in_outer_ids
+                           and not (isinstance(x.ctx, ast.Store) and isinstance(parent(x), ast.Assign) and isinstance(parent(x).value, (
+                               ast.Dict, ast.List, ast.Call, ast.Set)) and not any(isinstance(y, ast.Name) for y in ast.walk(parent(x).value)
+                                                                                   if y is not getattr(parent(x).value, "func", None)))]
+                closed = not outside and not _calls_new_code(chk, gc, U.CONSTANTS)
+                if not retried and not uses and closed:
                     bad = (f"deferred expressions are collected in `{pend}` but never taken up again: a key that refers to a later key "
                            "is lost")
+                elif not retried and not uses:
+                    pass
+                elif not retried and not closed and all(isinstance(parent(x), ast.Call) and _fname(parent(x)) == "len" for x in uses):
+                    pass
                 elif not retried and all(isinstance(parent(x), ast.Call) and _fname(parent(x)) == "len" for x in uses):
                     bad = (f"deferred expressions are collected in `{pend}`, but only its length is read afterwards: the entries never "
                            f"return to the work-list ({', '.join(sorted(work)) or 'none found'}), so a key that refers to a later key "
@@ -3384,12 +3967,31 @@ def constants_round_trip(chk):
         if len(stores) > 1:
             other = [parent(n) for n in stores if parent(n) is not gets[0]][0]
             gs = [(t, pol) for t, pol, k in guards_of(other, stop=parent(gets[0])) if k == "if"]
-            if gs and ((same_expr(gs[0][0], f"{val} is None") and gs[0][1]) or (same_expr(gs[0][0], f"{val} is not None") and not gs[0][1])
-                       or (same_expr(gs[0][0], f"not {val}") and gs[0][1])):
+            # VIOLATED needs: the replacement is a value that does not come from the file - a literal, or something read from the table
+            # of defaults (the module-level name imported from default_constants, also through a call on it) - and the arm that
+            # replaces it does nothing else (no return / raise / jump: it does not defer by another route).  A fall-back to another
+            # storage of the constants object is not such a replacement: cannot decide
+            holder = parent(other)
+            arm_ = (holder.body if any(x is other for x in holder.body) else holder.orelse) if isinstance(holder, ast.If) else []
+            plain_arm = arm_ and not any(isinstance(x, (ast.Return, ast.Raise, ast.Continue, ast.Break)) for s_ in arm_ for x in ast.walk(s_))
+            rv = other.value if isinstance(other, ast.Assign) else None
+            table_names = _default_table_names(chk)
+            from_defaults = rv is not None and ((isinstance(rv, ast.Constant) and rv.value is not None) or any(
+                isinstance(x, ast.Name) and x.id in table_names for x in ast.walk(rv)))
+            if gs and plain_arm and from_defaults and (
+                    (same_expr(gs[0][0], f"{val} is None") and gs[0][1]) or (same_expr(gs[0][0], f"{val} is not None") and not gs[0][1])
+                    or (same_expr(gs[0][0], f"not {val}") and gs[0][1])):
                 bad = (f"an operand that is still unset is replaced (`{src(other)[:70]}`) instead of deferring the expression: it is "
                        "evaluated with a value the file may override later (result depends on key order)")
         elif not tested and not any_none_ret:
-            if not any(isinstance(n, ast.Raise) for s_ in blk for n in ast.walk(s_)):
+            # VIOLATED needs: the fetched operand is only ever turned into text (every read of it is an argument of str / format /
+            # an f-string or a store), nothing raises, and no helper a refactoring introduced is called with it
+            val_reads = [x for x in _own_walk(ee) if isinstance(x, ast.Name) and x.id == val and isinstance(x.ctx, ast.Load)]
+            textual = all(isinstance(parent(x), (ast.FormattedValue, ast.Assign)) or (isinstance(parent(x), ast.Call) and _fname(parent(x)) in (
+                "str", "repr", "format")) for x in val_reads)
+            in_try = any(isinstance(p_, ast.Try) for x in val_reads for p_ in _ancestors(x))
+            if textual and not in_try and not any(isinstance(n, ast.Raise) for s_ in blk for n in ast.walk(s_)) \
+                    and not _calls_new_code(chk, ee, U.CONSTANTS):
                 bad = ("eval_expr never tests the operand it fetched and never returns None: an operand that is still unset enters the "
                        "expression as the text `None` instead of deferring the expression to a later sweep")
         else:
@@ -3492,7 +4094,31 @@ def constants_round_trip(chk):
     # the driver restarts only when it finds that file
     mn = _work(chk.func(U.DRIVER, "main"), chk, U.DRIVER)
     Dm = _Defs(mn)
-    looked = [c for c, n in _literal_names(mn, Dm, {}, lambda n: _fname(n) == "exists", other="F") if c is not None and c.count("{F}") == 1]
+    # the existence test that DECIDES the restart: the one read by the condition of the `if` one of whose arms calls the restart
+    # set-up (found by that role; other existence tests of the driver - creating the folder, diagnostics - say nothing here)
+    deciding = set()
+    for n in _own_walk(mn):
+        if isinstance(n, ast.If) and any(isinstance(c, ast.Call) and _fname(c) == "setupFromFile" for arm in (n.body, n.orelse) for st in arm for c in ast.walk(st)):
+            tests_ = [Dm.resolve(n.test, within=_enclosing_block(n))]
+            # a flag (`loadable`) set to True under the conditions that decide: those conditions are read instead
+            for x in [x for x in ast.walk(tests_[0]) if isinstance(x, ast.Name)]:
+                for v_, st_ in Dm.defs.get(x.id, []):
+                    if _is_const(v_, True) and isinstance(v_.value, bool):
+                        tests_ += [Dm.resolve(g_[0], within=_enclosing_block(st_)) for g_ in guards_of(st_, stop=mn) if g_[2] == "if" and g_[1]]
+            for t_ in tests_:
+                deciding |= {src(c.args[0]) for c in ast.walk(t_) if isinstance(c, ast.Call) and _fname(c) in ("exists", "isfile", "lexists") and c.args}
+                deciding |= {src(c.func.value) for c in ast.walk(t_) if isinstance(c, ast.Call) and _fname(c) in ("exists", "is_file") and not c.args
+                             and isinstance(c.func, ast.Attribute)}
+    looked = []
+    for text in sorted(deciding):
+        e_ = ast.parse(text, mode="eval").body
+        if isinstance(e_, ast.Call) and _fname(e_) in ("Path", "PurePath") and len(e_.args) >= 1:
+            e_ = ast.Call(func=ast.Attribute(value=ast.Attribute(value=ast.Name(id="os", ctx=ast.Load()), attr="path", ctx=ast.Load()), attr="join",
+                                             ctx=ast.Load()), args=list(e_.args), keywords=[]) if len(e_.args) > 1 else e_.args[0]
+        t_ = _template(Dm.resolve(e_))
+        c_ = _canon(t_, {}, other="F") if t_ is not None else None
+        if c_ is not None and c_.count("{F}") == 1:
+            looked.append(c_)
     ok = bad = None
     if wrote and looked and "{?" not in wrote:
         ok = wrote in looked
@@ -3505,6 +4131,23 @@ def constants_round_trip(chk):
 
 def _is_const_none(e):
     return isinstance(e, ast.Constant) and e.value is None
+
+
+def _default_table_names(chk):
+    """the module-level names of constants.py that stand for the table of default values: names imported from the module of the
+    defaults (default_constants), and names assigned from such a name at module level"""
+    try:
+        tree = chk.repo.mod(U.CONSTANTS).tree
+    except AnalysisError:
+        return set()
+    out = set()
+    for st in tree.body:
+        if isinstance(st, ast.ImportFrom) and st.module and st.module.split(".")[-1] == U.DEFAULTS.rsplit("/", 1)[1][:-3]:
+            out |= {al.asname or al.name for al in st.names}
+        elif isinstance(st, ast.Assign) and isinstance(st.value, (ast.Name, ast.Call, ast.Attribute)) and any(
+                isinstance(x, ast.Name) and x.id in out for x in ast.walk(st.value)):
+            out |= {t.id for t in st.targets if isinstance(t, ast.Name)}
+    return out
 
 
 def _unset_test(t, pol):
@@ -3564,9 +4207,17 @@ def _writes_with_guards(fn, obj, stop=None):
             ch, p_ = p_, parent(p_)
         guarded = any(_unset_test(t, pol) is not None and _attr_key(_unset_test(t, pol), obj) == key for t, pol in tests)
         name = key if isinstance(key, str) else key[1]
-        mentioned = any((isinstance(x, ast.Attribute) and x.attr == name and src(x.value) == obj) or (isinstance(x, ast.Name) and x.id == name
-                                                                                                   and not isinstance(key, str))
-                        or (isinstance(x, ast.Constant) and x.value == name) for t, pol in tests for x in ast.walk(t))
+        # the value written may itself keep the old value (`self.x = self.x if self.x is not None else d`, `self.x = self.x or d`,
+        # setattr(self, k, getattr(self, k) ...)): a write whose value reads the attribute is an unrecognised guard, too
+        value = st.value if isinstance(st, (ast.Assign, ast.AugAssign, ast.AnnAssign)) else n.args[2] if isinstance(n, ast.Call) else None
+        reads_self = value is not None and any(
+            (isinstance(x, ast.Attribute) and x.attr == name and src(x.value) == obj) or (isinstance(x, ast.Call) and _fname(x) == "getattr"
+                                                                                           and x.args and src(x.args[0]) == obj)
+            for x in ast.walk(value))
+        mentioned = reads_self or isinstance(st, ast.AugAssign) or any(
+            (isinstance(x, ast.Attribute) and x.attr == name and src(x.value) == obj) or (isinstance(x, ast.Name) and x.id == name
+                                                                                         and not isinstance(key, str))
+            or (isinstance(x, ast.Constant) and x.value == name) for t, pol in tests for x in ast.walk(t))
         out.append((key, st, guarded, mentioned))
     return out
 
@@ -3639,7 +4290,55 @@ def zero_divisors(chk, fn):
     for st in fn.body:
         if isinstance(st, ast.Assign) and isinstance(st.targets[0], ast.Name) and isinstance(st.value, ast.Constant) and st.value.value == 0:
             zeros[st.targets[0].id] = st
+    # difference counters: `S = X` once at function level, X a name the function increments: `X - S` counts the increments of X
+    # since that statement (0 right after it, positive after an increment of X by a positive literal, unknown after anything else)
+    all_stores = {}
+    for n_ in _own_walk(fn):
+        if isinstance(n_, ast.Name) and isinstance(n_.ctx, ast.Store):
+            all_stores[n_.id] = all_stores.get(n_.id, 0) + 1
+    incremented = {increment_of(x)[0] for x in ast.walk(fn) if isinstance(x, (ast.Assign, ast.AugAssign)) and increment_of(x)}
+    diffs = {}                  # key "X - S" -> (X, S)
+    for st in fn.body:
+        if isinstance(st, ast.Assign) and len(st.targets) == 1 and isinstance(st.targets[0], ast.Name) and isinstance(st.value, ast.Name) \
+                and all_stores.get(st.targets[0].id) == 1 and st.value.id in incremented and st.targets[0].id not in _params(fn):
+            diffs[f"{st.value.id} - {st.targets[0].id}"] = (st.value.id, st.targets[0].id)
     found = 0
+
+    def track_diffs(st, state):
+        """effect of a simple statement on the difference counters"""
+        if not diffs:
+            return
+        stored = {x.id for x in ast.walk(st) if isinstance(x, ast.Name) and isinstance(x.ctx, (ast.Store, ast.Del))}
+        inc = increment_of(st) if isinstance(st, (ast.Assign, ast.AugAssign)) else None
+        for key, (X, S) in diffs.items():
+            if isinstance(st, ast.Assign) and len(st.targets) == 1 and isinstance(st.targets[0], ast.Name) and st.targets[0].id == S \
+                    and isinstance(st.value, ast.Name) and st.value.id == X:
+                state[key] = {"zero"}
+            elif S in stored:
+                state[key] = {"unknown"}
+            elif X in stored:
+                if inc and inc[0] == X and isinstance(inc[1], ast.Constant) and isinstance(inc[1].value, int) and not isinstance(inc[1].value, bool) \
+                        and inc[1].value > 0 and len(stored) == 1:
+                    state[key] = {"pos"} if state[key] <= {"zero", "pos"} else {"unknown"}
+                else:
+                    state[key] = {"unknown"}
+
+    def divisor(e, state):
+        """the divisor as a tracked counter plus a non-negative literal -> (key, offset) | None"""
+        off = 0
+        while isinstance(e, ast.BinOp) and isinstance(e.op, ast.Add):
+            if _is_const(e.right, typ=int) and not isinstance(e.right.value, bool) and e.right.value >= 0:
+                off, e = off + e.right.value, e.left
+            elif _is_const(e.left, typ=int) and not isinstance(e.left.value, bool) and e.left.value >= 0:
+                off, e = off + e.left.value, e.right
+            else:
+                return None
+        if isinstance(e, ast.Name) and e.id in state:
+            return e.id, off
+        if isinstance(e, ast.BinOp) and isinstance(e.op, ast.Sub) and isinstance(e.left, ast.Name) and isinstance(e.right, ast.Name) \
+                and f"{e.left.id} - {e.right.id}" in state:
+            return f"{e.left.id} - {e.right.id}", off
+        return None
 
     def nonzero_when(test):
         """names known to be non-zero when `test` is true / when it is false -> (set, set)"""
@@ -3663,7 +4362,9 @@ def zero_divisors(chk, fn):
                 if (isinstance(op, ast.Gt) and c >= 0) or (isinstance(op, ast.GtE) and c > 0) or (isinstance(op, ast.NotEq) and c == 0) \
                         or (isinstance(op, ast.Eq) and c != 0):
                     return {a.id}, set()
-                if (isinstance(op, ast.Eq) and c == 0) or (isinstance(op, ast.LtE) and c == 0 and False):
+                # counters of this rule start at the literal 0 and only grow (anything else makes them `unknown`): `n < c` with
+                # c <= 1 and `n <= c` with c <= 0 can only hold for n == 0 ... what matters: when they are FALSE, n is not 0
+                if (isinstance(op, ast.Eq) and c == 0) or (isinstance(op, ast.Lt) and 0 < c <= 1) or (isinstance(op, ast.LtE) and 0 <= c < 1):
                     return set(), {a.id}
         return set(), set()
 
@@ -3684,9 +4385,20 @@ def zero_divisors(chk, fn):
                 a, b = refined(state, nz_t), refined(state, nz_f)
                 scan(st.body, a)
                 scan(st.orelse, b)
+                # an arm that always leaves (return / raise / continue / break) does not reach what follows the `if`
+                ea, eb = _always_leaves(st.body), _always_leaves(st.orelse)
                 for k in state:
-                    state[k] = a[k] | b[k]
+                    state[k] = (set() if ea else a[k]) | (set() if eb else b[k]) or {"unknown"}
             elif isinstance(st, (ast.While, ast.For)):
+                if isinstance(st, ast.For):
+                    check_exprs(st.iter, state)
+                    for x in ast.walk(st.target):
+                        if isinstance(x, ast.Name) and x.id in state:
+                            state[x.id] = {"unknown"}
+                        if isinstance(x, ast.Name):
+                            for key, (X_, S_) in diffs.items():
+                                if x.id in (X_, S_):
+                                    state[key] = {"unknown"}
                 for _ in range(3):
                     inner = {k: set(v) for k, v in state.items()}
                     if isinstance(st, ast.While):
@@ -3702,9 +4414,30 @@ def zero_divisors(chk, fn):
                     state[k] |= entry[k]
             elif isinstance(st, (ast.FunctionDef, ast.ClassDef)):
                 continue
+            elif isinstance(st, (ast.With, ast.AsyncWith)):
+                for it in st.items:
+                    check_exprs(it.context_expr, state)
+                scan(st.body, state)
+            elif isinstance(st, ast.Try):
+                # the body may stop anywhere: what follows sees the state before it, after it, or after a handler
+                before = {k: set(v) for k, v in state.items()}
+                scan(st.body, state)
+                for k in state:
+                    state[k] |= before[k]
+                outs = []
+                for h_ in st.handlers:
+                    hs = {k: set(v) for k, v in state.items()}
+                    scan(h_.body, hs)
+                    outs.append(hs)
+                scan(st.orelse, state)
+                for hs in outs:
+                    for k in state:
+                        state[k] |= hs[k]
+                scan(st.finalbody, state)
             else:
                 if isinstance(st, ast.Assign):
                     check_exprs(st.value, state)
+                    track_diffs(st, state)
                     for t in st.targets:
                         if isinstance(t, ast.Name) and t.id in state:
                             v = st.value
@@ -3713,8 +4446,17 @@ def zero_divisors(chk, fn):
                                 state[t.id] = {"pos"} if state[t.id] <= {"zero", "pos"} else {"unknown"}
                             else:
                                 state[t.id] = {"zero"} if isinstance(v, ast.Constant) and v.value == 0 else {"unknown"}
+                        elif not isinstance(t, ast.Name):
+                            # a tracked name assigned inside a tuple / starred target: its new value is not followed
+                            for x in ast.walk(t):
+                                if isinstance(x, ast.Name) and x.id in state:
+                                    state[x.id] = {"unknown"}
+                    for x in ast.walk(st.value):            # assigned by a walrus inside the value
+                        if isinstance(x, ast.NamedExpr) and isinstance(x.target, ast.Name) and x.target.id in state:
+                            state[x.target.id] = {"unknown"}
                 elif isinstance(st, ast.AugAssign):
                     check_exprs(st.value, state)
+                    track_diffs(st, state)
                     if isinstance(st.target, ast.Name) and st.target.id in state:
                         v = st.value
                         if isinstance(st.op, ast.Add) and isinstance(v, ast.Constant) and isinstance(v.value, (int, float)) and v.value > 0:
@@ -3725,6 +4467,10 @@ def zero_divisors(chk, fn):
                     for ch in ast.iter_child_nodes(st):
                         if isinstance(ch, ast.expr):
                             check_exprs(ch, state)
+                    track_diffs(st, state)
+                    for x in ast.walk(st):                  # any other way of binding a tracked name (annotated assignment, walrus,
+                        if isinstance(x, ast.Name) and isinstance(x.ctx, (ast.Store, ast.Del)) and x.id in state:   # del, global ...)
+                            state[x.id] = {"unknown"}
 
     quiet = [False]
 
@@ -3749,10 +4495,38 @@ def zero_divisors(chk, fn):
                 check_exprs(v, st_, report)
                 st_ = refined(st_, nonzero_when(v)[0])
             return
+        dv = divisor(e.right, state) if isinstance(e, ast.BinOp) and isinstance(e.op, (ast.Div, ast.FloorDiv, ast.Mod)) else None
+        if dv is not None and not isinstance(e.right, ast.Name) and not (quiet[0] or not report):
+            # a counter plus a literal / a difference counter: same verdicts, the divisor quoted as written
+            found += 1
+            key, off = dv
+            bad = "zero" in state[key] and off == 0
+            chk.ob("G4-zero-divisor", e, src(e)[:80], not bad,
+                   f"`{src(e.right)}` is non-zero on every path reaching this division (a count that is at least "
+                   f"{off if off else 1} here: incremented, offset by a positive literal, or excluded by a test)" if not bad else
+                   f"`{src(e.right)}` is 0 right after `{diffs[key][1]} = {diffs[key][0]}` and stays 0 until `{diffs[key][0]}` is incremented: "
+                   "no increment and no test excludes that on a path to this division: ZeroDivisionError aborts the run"
+                   if key in diffs else f"`{src(e.right)}` can still be 0 here", file=U.DRIVER, func="main")
+            for ch in ast.iter_child_nodes(e):
+                if isinstance(ch, ast.expr):
+                    check_exprs(ch, state, report)
+            return
         if isinstance(e, ast.BinOp) and isinstance(e.op, (ast.Div, ast.FloorDiv, ast.Mod)) and isinstance(e.right, ast.Name) \
                 and e.right.id in state and not (quiet[0] or not report):
             found += 1
             bad = "zero" in state[e.right.id]
+            # VIOLATED assumes the ZeroDivisionError is not caught: a division inside a `try` that handles it (or handles
+            # everything) does not abort the run - what the handler then does is not followed: undecided
+            caught = any(isinstance(p_, ast.Try) and any(any(x is e for x in ast.walk(b_)) for b_ in p_.body) and any(
+                h_.type is None or any(isinstance(x, ast.Name) and x.id in ("ZeroDivisionError", "ArithmeticError", "Exception", "BaseException")
+                                       for x in ast.walk(h_.type)) for h_ in p_.handlers) for p_ in _ancestors(e))
+            if bad and caught:
+                chk.ob("G4-zero-divisor", e, src(e)[:80], None, f"`{e.right.id}` can be 0 here, but the division is inside a `try` that handles the "
+                       "error: what happens then is not followed", file=U.DRIVER, func="main")
+                for ch in ast.iter_child_nodes(e):
+                    if isinstance(ch, ast.expr):
+                        check_exprs(ch, state, report)
+                return
             chk.ob("G4-zero-divisor", e, src(e)[:80], not bad,
                    f"`{e.right.id}` is non-zero on every path reaching this division (incremented, or excluded by a test)" if not bad else
                    f"`{e.right.id}` can still hold its initial 0 here: no increment and no test excludes it on a path from its "
@@ -3763,6 +4537,7 @@ def zero_divisors(chk, fn):
             if isinstance(ch, ast.expr):
                 check_exprs(ch, state, report)
     state = {k: {"unknown"} for k in zeros}
+    state.update({k: {"unknown"} for k in diffs})
     scan(fn.body, state)
     if found < 1:
         raise AnalysisError("C18: no division by a zero-initialised counter found in the driver (rule would be vacuous)")
@@ -3839,9 +4614,14 @@ def restart_bookkeeping(chk, fn):
         step = D.resolve(incs[T][0][1])
         init = [d for d in D.defs.get(TI, []) if d[0] is not None and _pos(d[1]) < _pos(lp)]
         tre = [d for d in D.defs.get(T, []) if d[1] not in setups and _pos(d[1]) < _pos(lp)]
-        if tre and not all(isinstance(d[0], ast.Constant) for d in tre):
-            pass                    # recomputed from something: cannot decide
+        # VIOLATED (time overwritten) needs: a literal assigned to the time unconditionally, at the top level of the function, after
+        # every set-up call - it then replaces the returned time on every path.  A literal assigned in one arm (a set-up that
+        # returns no time and `t = 0` beside it) is that arm's own initial time
+        certain = [d for d in tre if isinstance(d[0], ast.Constant) and any(d[1] is x for x in fn.body) and all(_pos(d[1]) > _pos(n_) for n_ in setups)]
+        if tre and not certain:
+            pass                    # recomputed from something, or assigned on some paths only: cannot decide
         elif tre:
+            tre = certain
             bad = (f"the time returned by the set-up is overwritten before the loop (`{src(tre[0][1])[:60]}`): a restarted run does not "
                    "resume at the checkpoint's time")
         elif len(init) == 1:
@@ -3849,8 +4629,15 @@ def restart_bookkeeping(chk, fn):
             while isinstance(v, ast.Call) and _fname(v) in ("int", "round") and len(v.args) == 1:
                 v = v.args[0]
             if isinstance(v, ast.Constant):
-                bad = (f"the step index starts at the constant {v.value!r} instead of being derived from the loaded time: after a restart "
-                       "the save steps and the end of the run are counted from 0 again")
+                # VIOLATED needs: the end of the loop is an absolute index (end time // step, not reading the loaded time): an index
+                # that restarts at a literal is then compared with a bound counted from time 0.  A bound computed from the loaded
+                # time (steps still to do) with a run-local index is another, consistent convention: cannot decide
+                tn_, _ex = _end_index(D, TN, strict)
+                absolute = isinstance(tn_, ast.BinOp) and isinstance(tn_.op, (ast.FloorDiv, ast.Div)) and src(D.resolve(tn_.right)) == src(step) \
+                    and not any(isinstance(x, ast.Name) and x.id == T for x in ast.walk(tn_))
+                if absolute:
+                    bad = (f"the step index starts at the constant {v.value!r} instead of being derived from the loaded time: after a restart "
+                           "the save steps and the end of the run are counted from 0 again")
             elif isinstance(v, ast.BinOp) and isinstance(v.op, (ast.FloorDiv, ast.Div)) and src(v.left) == T:
                 div = D.resolve(v.right)
                 if src(div) == src(step):
@@ -3925,7 +4712,10 @@ def restart_bookkeeping(chk, fn):
             one = all_steps[0] if all_steps and all(src(x) == src(all_steps[0]) for x in all_steps) else ast.Name(id="<several>", ctx=ast.Load())
             tn, exact = _end_index(D, TN, strict)
             if not _is_const(one, 1):
-                bad = f"the step index advances by `{src(one)}` per step, not by 1"
+                # relational: the index counts steps of the size the time advances by (`ti = t // step`, decided above) - then one
+                # step must add 1.  Without that relation another unit of the index is a convention of its own: cannot decide
+                if label_is_time:
+                    bad = f"the step index advances by `{src(one)}` per step, not by 1, while it is `{T} // step` and `{T}` advances by one step"
             elif exact:
                 ok = True               # `ti < N`, or `ti <= last` with last = N - 1: the same iterations
             elif isinstance(tn, ast.BinOp) and isinstance(tn.op, (ast.FloorDiv, ast.Div)):
@@ -3978,7 +4768,14 @@ def restart_bookkeeping(chk, fn):
             rows = []
             for c in blk:
                 conv = _arg(c, 2, "nameConvention")
-                rows.append((src(c.func.value), src(_arg(c, 0, "foldername")), src(_arg(c, 1, "time")),
+                if any(isinstance(a_, ast.Starred) for a_ in c.args) or any(k_.arg is None for k_ in c.keywords) \
+                        or _arg(c, 0, "foldername") is None or _arg(c, 1, "time") is None:
+                    rows.append((None, None, None, None))          # * / ** arguments: the roles of the arguments are not known
+                    continue
+                # receiver and label with aliases written out (`f = distribFunc`; `now = t`; int(t) / float(t) are the same label)
+                recv = src(D.resolve(c.func.value, within=_enclosing_block(c)))
+                label = _unwrap_num(src(D.resolve(_arg(c, 1, "time"), within=_enclosing_block(c), only=_arith)))
+                rows.append((recv, src(_arg(c, 0, "foldername")), label,
                              "grid" if conv is None else conv.value if _is_const(conv, typ=str) else None))
             line = getattr(blk[0], "lineno", "?")
             names = [r_[3] for r_ in rows]
@@ -3992,6 +4789,16 @@ def restart_bookkeeping(chk, fn):
                 if elsewhere:
                     unknown_label = True            # the other grid is written at the same place of the run under a condition this
                     continue                        # rule cannot show to be the same one: cannot decide
+                # VIOLATED ("writes only one") needs every way of writing the other grid at this site to be visible: no other call
+                # in the statements of this site receives the same time label or folder (a helper that saves the other grid), and
+                # no code introduced by a refactoring is called in the driver that the composition could not write back
+                holder_blk = _enclosing_block(blk[0]) or []
+                label_, folder_ = rows[0][2], rows[0][1]
+                helper = any(isinstance(x, ast.Call) and not _is_write(x) and _fname(x) not in ("my_print", "print", "format", "str", "int", "float") and any(
+                    src(a_) in (label_, folder_) for a_ in list(x.args) + [k_.value for k_ in x.keywords]) for st_ in holder_blk for x in ast.walk(st_))
+                if helper or _calls_new_code(chk, fn, U.DRIVER):
+                    unknown_label = True
+                    continue
                 bad = bad or (f"the save site at line {line} writes only '{names[0]}': distribution function and potential are no longer "
                               "checkpointed together")
             elif len(set(names)) < len(names):
@@ -4000,11 +4807,20 @@ def restart_bookkeeping(chk, fn):
                 g = [r_ for r_ in rows if r_[3] == "grid"][0]
                 p = [r_ for r_ in rows if r_[3] == "phi"][0]
                 if g[0] != G:
-                    bad = bad or f"the file 'grid' at line {line} is written from `{g[0]}`, not from the distribution function `{G}`"
+                    # VIOLATED needs to know what the other object is: it is the one written as 'phi' (the two are swapped / the
+                    # potential is written twice).  Some other object (a copy, a view in another layout) is not followed
+                    if g[0] == p[0] or p[0] == G:
+                        bad = bad or f"the file 'grid' at line {line} is written from `{g[0]}`, not from the distribution function `{G}`"
+                    else:
+                        unknown_label = True
                 elif g[2] != p[2] or g[1] != p[1]:
                     bad = bad or f"the two grids at line {line} are written with different folder/time (`{g[1]}, {g[2]}` / `{p[1]}, {p[2]}`)"
                 elif g[2] != T:
-                    if label_is_time:
+                    # VIOLATED (label) needs: the label is an expression that does not read the time at all (the step index, a
+                    # counter) while the restart takes the label for the time.  An expression of the time itself (rounded,
+                    # rescaled) is not compared here
+                    reads_time = re.search(r"\b" + re.escape(T) + r"\b", g[2]) is not None
+                    if label_is_time and not reads_time:
                         bad = bad or (f"the checkpoints at line {line} are labelled with `{g[2]}`, not with the current time `{T}`: the restart "
                                       f"parses the label and the driver resumes with it as the time (`{TI}` = `{T}` // step)")
                     else:
@@ -4213,7 +5029,10 @@ def run(chk):
         "shape of an entry and of the frame; defaults after the file; deferral of unset operands and the return of the deferred "
         "entries to the work-list); the driver's zero divisors (flow analysis refined by tests), restart index, loop bound, and the "
         "save conditions as congruences on the global step index (run-local counters and `ti - <index at start>` are recognised as "
-        "counts of this invocation). Bit-exact HDF5 round trip and equality of split and unsplit runs are history-level/numerical "
+        "counts of this invocation). Writer and loader are found by role (the method an instance of Grid has under that name, in "
+        "the class or in a base / mixin of the repository); lazily cached properties whose inputs are written only by __init__ "
+        "are read as the expression they cache. Divisors of the driver may be a counter, a counter plus a literal, or the "
+        "difference to a snapshot of an incremented index. Bit-exact HDF5 round trip and equality of split and unsplit runs are history-level/numerical "
         "and are not decided. Collective matching of the parallel-HDF5 calls and setupSave is decided by C06.")
     chk.in_file(U.GRID)
     props = {m.name for m in chk.mod(U.LAYOUT).cls("Layout").body if isinstance(m, ast.FunctionDef)
